@@ -33,6 +33,8 @@ import re
 from typing import Any, Dict, List, Optional, Tuple
 
 from engines import c01facts as cf
+from engines import c0506facts as c56
+from engines import c05submit as cs
 from engines import pyfacts as pf
 from engines import sqlfront as sf
 from engines import sqlrules as sr
@@ -102,23 +104,42 @@ def r1_trigger(ctx: Ctx, prog: sf.SqlProgram) -> None:
     r = prog.routine('jobs_after_update')
     a = r.ast
     ctx.need(a.rkind == 'trigger' and a.timing == 'AFTER' and a.event == 'UPDATE' and a.table.lower() == 'jobs', 'jobs_after_update is not AFTER UPDATE ON jobs')
-    env = sr.inline_sets(a.body, sr.declared_vars(a))
-    # the group-cancelled flag: SELECT is_job_group_cancelled(OLD.batch_id, OLD.job_group_id) INTO cur_job_group_cancelled
+    # the group-cancelled flag: SELECT is_job_group_cancelled(OLD.batch_id, OLD.job_group_id) INTO v   |   SET v = is_job_group_cancelled(..)
+    soft: List[str] = []
+    variables = sr.declared_vars(a)
     gc_var = None
-    for st in a.body:
-        if st.kind == 'select' and st.into and len(st.cols) == 1 and st.cols[0][0].kind == 'func' and st.cols[0][0].name == 'IS_JOB_GROUP_CANCELLED':
-            args = [text(x).lower() for x in st.cols[0][0].args]
-            ctx.check(args in (['old.batch_id', 'old.job_group_id'], ['new.batch_id', 'new.job_group_id']), 'R1',
-                      f'{r.file}::jobs_after_update::group-cancelled lookup',
-                      f'is_job_group_cancelled is evaluated on {args}, not on the job\'s own (batch_id, job_group_id)', r.file, r.line_of(st))
-            gc_var = st.into[0].parts[0].lower()
+    for v_, defs in cf.assigned_from(a.body).items():
+        for e_, st_ in defs:
+            if e_.kind == 'func' and e_.name == 'IS_JOB_GROUP_CANCELLED':
+                args = [text(x).lower() for x in e_.args]
+                ctx.check(args in (['old.batch_id', 'old.job_group_id'], ['new.batch_id', 'new.job_group_id']), 'R1',
+                          f'{r.file}::jobs_after_update::group-cancelled lookup',
+                          f'is_job_group_cancelled is evaluated on {args}, not on the job\'s own (batch_id, job_group_id)', r.file, r.line_of(st_) if st_ is not None else r.line)
+                ctx.need(len(defs) == 1 and gc_var is None, 'jobs_after_update: the group-cancelled flag is assigned more than once')
+                gc_var = v_
     ctx.need(gc_var is not None, 'jobs_after_update: group-cancelled lookup not recognised')
+    env = sr.inline_sets(a.body, [v for v in sr.declared_vars(a) if v != gc_var])
 
     points = list(itertools.product(STATES, STATES, (0, 1), (0, 1), (0, 1), (0, 1)))
     cores_atoms = {'old.cores_mcpu', 'new.cores_mcpu'}
 
     def is_cores(n: N) -> bool:
         return n.kind == 'col' and text(n).lower() in cores_atoms
+
+    def amounts_differ(a1: N, s1: int, a2: N, s2: int) -> Optional[bool]:
+        """Two delta expressions compared as linear forms in cores_mcpu whose coefficients are truth-tabled over the complete domain."""
+        l1, l2 = cf.linear_in(a1, is_cores), cf.linear_in(a2, is_cores)
+        allowed = {'old.state', 'new.state', 'old.cancelled', 'new.cancelled', 'old.always_run', 'new.always_run', 'old.cores_mcpu', 'new.cores_mcpu', gc_var}
+        if l1 is None or l2 is None or not ({text(c).lower() for x in (a1, a2) for c in sf.cols_in(x)} <= allowed):
+            return None
+        for (os_, ns, oc, nc, ar, gc) in points:
+            vals = {'old.state': os_, 'new.state': ns, 'old.cancelled': oc, 'new.cancelled': nc, 'old.always_run': ar, 'new.always_run': ar, gc_var: gc}
+            for e1, e2 in ((l1[0], l2[0]), (l1[1], l2[1])):
+                v1 = s1 * ev(e1, lambda c: vals[text(c).lower()]) if e1 is not None else 0
+                v2 = s2 * ev(e2, lambda c: vals[text(c).lower()]) if e2 is not None else 0
+                if v1 != v2:
+                    return True
+        return False
 
     def check_table(table: str, counters: List[str]):
         inserts = _find_inserts(a.body, table)
@@ -156,12 +177,8 @@ def r1_trigger(ctx: Ctx, prog: sf.SqlProgram) -> None:
                         f'recomputation from job state gives {want}{part}', r.file, r.line_of(st))
             else:
                 ctx.ok('R1', cons, {'points': len(points)})
-            # insert value == on-duplicate increment
-            inc = sr.dup_increment(col, dup[col], uvars) if col in dup else None
-            same = inc is not None and inc[0] == 1 and text(sr.inline_expr(inc[1], env)) == text(e)
-            ctx.check(same, 'R3', cons + '::on-duplicate',
-                      f'ON DUPLICATE KEY UPDATE for {col} is `{text(dup.get(col))}`, not `{col} = {col} + <the inserted delta>`: an existing token row and a '
-                      f'fresh one would receive different amounts', r.file, r.line_of(st))
+            # insert value == on-duplicate increment (both sides with the SET definitions inlined; `col + VALUES(col)` is the inserted value)
+            _check_on_dup(ctx, cons, col, ins[col], dup, uvars, r.file, r.line_of(st), soft, resolve=lambda x: sr.inline_expr(x, env), differ=amounts_differ)
         extra = [c for c in dup if c not in counters]
         ctx.check(not extra, 'R3', f'{r.file}::jobs_after_update::{table}::one-sided', f'columns updated on duplicate key but not counters: {extra}', r.file, r.line_of(st))
         return st, ins
@@ -170,23 +187,44 @@ def r1_trigger(ctx: Ctx, prog: sf.SqlProgram) -> None:
     cst, cins = check_table(CANC_TBL, CANC_COUNTERS)
     ctx.unit('truth_table_points', len(points) * (len(USER_COUNTERS) + len(CANC_COUNTERS)))
 
-    # keys: user of the job's batch, the job's inst_coll
-    user_e = sr.inline_expr(uins.get('user', N('lit', value=None)), env)
-    user_ok = False
-    if sr.is_var(uins.get('user', N('lit', value=None))):
-        v = uins['user'].parts[0].lower()
-        for st in a.body:
-            if st.kind == 'select' and st.into and [t.parts[0].lower() for t in st.into if sr.is_var(t)] == [v]:
-                user_ok = (text(st.cols[0][0]).lower() == 'user' and sf.table_names(st.frm) == ['batches']
-                           and (sr.has_eq(st.where, 'id', 'new.batch_id') or sr.has_eq(st.where, 'id', 'old.batch_id')))
-    ctx.check(user_ok, 'R1', f'{r.file}::jobs_after_update::{USER_TBL}.user', 'user key is not the owner of the job\'s batch (SELECT user FROM batches WHERE id = NEW.batch_id)',
-              r.file, r.line_of(ust))
-    ic = text(uins.get('inst_coll', N('lit', value=None))).lower()
-    ctx.check(ic in ('new.inst_coll', 'old.inst_coll'), 'R1', f'{r.file}::jobs_after_update::{USER_TBL}.inst_coll', f'inst_coll key is `{ic}`', r.file, r.line_of(ust))
+    # keys: user of the job's batch, the job's inst_coll (aliases / operand order do not matter)
+    ROW_B = [('row', 'new', 'batch_id'), ('row', 'old', 'batch_id')]
+    c_user = f'{r.file}::jobs_after_update::{USER_TBL}.user'
+    ue = uins.get('user')
+    verdict = None
+    if ue is not None and sr.is_var(ue):
+        defs = cf.assigned_from(a.body).get(ue.parts[0].lower(), [])
+        if len(defs) == 1 and defs[0][1] is not None and defs[0][1].frm is not None:
+            e_, st_ = defs[0]
+            al = cf.alias_map(st_)
+            if sorted(al.values()) == ['batches'] and e_.kind == 'col' and e_.parts[-1].lower().strip('`') == 'user':
+                ec = cf.eq_closure(st_, prog.tables, variables)
+                if any(ec.related(('col', 'batches', 'id'), t) for t in ROW_B) and not ec.other:
+                    verdict = True
+                elif not ec.other:
+                    verdict = False
+    if verdict is True:
+        ctx.ok('R1', c_user)
+    elif verdict is False:
+        ctx.bad('R1', c_user, 'user key is not the owner of the job\'s batch (SELECT user FROM batches WHERE id = NEW.batch_id)', r.file, r.line_of(ust))
+    else:
+        soft.append(f'jobs_after_update: where the user key `{text(ue) if ue is not None else None}` of the {USER_TBL} upsert comes from is not recognised')
+    ic_e = sr.inline_expr(uins['inst_coll'], env) if 'inst_coll' in uins else None
+    ic = text(ic_e).lower() if ic_e is not None else None
+    c_ic = f'{r.file}::jobs_after_update::{USER_TBL}.inst_coll'
+    if ic in ('new.inst_coll', 'old.inst_coll'):
+        ctx.ok('R1', c_ic)
+    elif ic_e is not None and ic_e.kind == 'col' and len(ic_e.parts) == 2 and ic_e.parts[0].lower() in ('new', 'old'):
+        ctx.bad('R1', c_ic, f'inst_coll key is `{ic}`', r.file, r.line_of(ust))
+    else:
+        soft.append(f'jobs_after_update: the inst_coll key `{ic}` of the {USER_TBL} upsert is not recognised')
     # R5 fan-out of the cancellable row over self and ancestors
     _check_fanout(ctx, 'R5', f'{r.file}::jobs_after_update::{CANC_TBL}', cst, cins, r.file, r.line_of(cst),
-                  batch='new.batch_id', group='new.job_group_id', update='new.update_id', inst_coll='new.inst_coll')
+                  batch=ROW_B, group=[('row', 'new', 'job_group_id'), ('row', 'old', 'job_group_id')], update=[('row', 'new', 'update_id'), ('row', 'old', 'update_id')],
+                  variables=variables, schema=prog.tables, soft=soft)
     r9_trigger_paths(ctx, r, gc_var, points)
+    if soft:
+        raise AnalysisError(soft[0])
 
 
 # ------------------------------------------------------------------------------------------------
@@ -284,29 +322,56 @@ def r9_trigger_paths(ctx: Ctx, r: sf.Routine, gc_var: str, points: List[tuple]) 
         raise AnalysisError(f'jobs_after_update: whether the upsert carrying {tbl}.{col} runs at {pt} depends on a condition outside the analysed domain')
 
 
-def _check_fanout(ctx: Ctx, rule: str, cons: str, st: N, ins: Dict[str, N], file: str, line: int, batch: str, group: str, update: Optional[str], inst_coll: Optional[str]) -> None:
+def _routine_vars(a: N) -> List[str]:
+    return sr.declared_vars(a)
+
+
+def _check_fanout(ctx: Ctx, rule: str, cons: str, st: N, ins: Dict[str, N], file: str, line: int, batch: List[Any], group: List[Any], update: Optional[List[Any]],
+                  variables: List[str], schema: Optional[Dict[str, List[str]]], soft: List[str]) -> None:
+    """Rows for the group and all its ancestors: INSERT .. SELECT over job_group_self_and_ancestors keyed by the job's / the argument's own
+    (batch, group), job_group_id <- ancestor_id.  batch / group / update: the acceptable canonical terms (engines/c01facts.term_of).
+    Aliases, operand order and conjunct order do not matter.  A shape that is not a walk at all is declined, not reported."""
+    WALK = 'job_group_self_and_ancestors'
     sel = st.select
-    ok = sel is not None and sf.table_names(sel.frm)[:1] == ['job_group_self_and_ancestors']
-    msg = ''
-    if not ok:
-        msg = 'rows are not generated from job_group_self_and_ancestors'
-    else:
-        jg = text(ins.get('job_group_id', N('lit', value=None))).lower().split('.')[-1]
-        if jg != 'ancestor_id':
-            ok, msg = False, f'job_group_id column receives `{jg}` instead of ancestor_id (counts would not reach the ancestors)'
-        elif not (sr.has_eq(sel.where, 'batch_id', batch) and sr.has_eq(sel.where, 'job_group_id', group)):
-            ok, msg = False, f'ancestor walk is not keyed by the job\'s own ({batch}, {group}): WHERE {text(sel.where)}'
-        elif text(ins.get('batch_id', N('lit', value=None))).lower().split('.')[-1] not in (batch.split('.')[-1], batch, '%s', 'batch_id'):
-            ok, msg = False, f'batch_id column receives `{text(ins.get("batch_id"))}`'
-        elif update and text(ins.get('update_id', N('lit', value=None))).lower() not in (update, '%s'):
-            ok, msg = False, f'update_id column receives `{text(ins.get("update_id"))}`'
-    ctx.check(ok, rule, cons + '::ancestor fan-out', msg, file, line)
+    c3 = cons + '::ancestor fan-out'
+    if sel is None:
+        ctx.bad(rule, c3, 'rows are not generated from job_group_self_and_ancestors: a single row is written for the group itself, the counts never reach its ancestors', file, line)
+        return
+    alias = cf.alias_map(sel)
+    if WALK not in alias.values():
+        soft.append(f'{cons}: the rows are not selected from {WALK}: fan-out over the ancestors not recognised')
+        return
+    ec = cf.eq_closure(sel, schema, variables)
+    jg = ins.get('job_group_id')
+    jgt = cf.term_of(jg, alias, schema, variables) if jg is not None else None
+    kb = any(ec.related(('col', WALK, 'batch_id'), t) for t in batch)
+    kg = any(ec.related(('col', WALK, 'job_group_id'), t) for t in group)
+    if jgt is not None and jgt[0] == 'col' and jgt[2] == 'ancestor_id' and kb and kg:
+        bt = cf.term_of(ins['batch_id'], alias, schema, variables) if 'batch_id' in ins else None
+        ut = cf.term_of(ins['update_id'], alias, schema, variables) if 'update_id' in ins else None
+        b_ok = bt is not None and (bt in batch or (bt[0] == 'col' and bt[2] == 'batch_id') or bt[0] == 'param')
+        u_ok = update is None or (ut is not None and (ut in update or ut[0] == 'param' or (ut[0] == 'col' and ut[2] == 'update_id' and ('col', '?', 'update_id') in update)))
+        if b_ok and u_ok:
+            ctx.ok(rule, c3)
+        elif bt is not None and ut is not None and (bt[0] in ('row', 'var', 'col')) and (update is None or ut[0] in ('row', 'var', 'col')):
+            ctx.bad(rule, c3, f'batch_id column receives `{text(ins.get("batch_id"))}`, update_id column receives `{text(ins.get("update_id")) if "update_id" in ins else "-"}`: the ancestor rows are keyed by another batch / update than the job\'s', file, line)
+        else:
+            soft.append(f'{cons}: batch_id / update_id of the ancestor rows not recognised')
+        return
+    if jgt is not None and jgt[0] in ('col', 'row', 'var') and jgt[-1] == 'job_group_id' and kb and kg:
+        ctx.bad(rule, c3, f'job_group_id column receives `{text(jg)}` instead of ancestor_id (counts would not reach the ancestors)', file, line)
+        return
+    part = ec.partners(('col', WALK, 'job_group_id'))
+    if jgt is not None and jgt[0] == 'col' and jgt[2] == 'ancestor_id' and kb and not kg and part and not ec.other:
+        ctx.bad(rule, c3, f'ancestor walk is not keyed by the job\'s / argument\'s own group: WHERE {text(sel.where)}', file, line)
+        return
+    soft.append(f'{cons}: the ancestor walk (WHERE {text(sel.where)[:100]}) is not recognised')
 
 
 # ------------------------------------------------------------------------------------------------
 def r2_audit(ctx: Ctx) -> None:
     m = pf.load('batch/batch/driver/main.py')
-    embs = [e for e in sf.embedded_in(m) if e.qual.startswith('check_incremental')]
+    embs = [e for e in cs.embedded(m) if e.qual.startswith('check_incremental')]
     ctx.need(len(embs) == 1, f'check_incremental: expected one embedded statement, found {len(embs)}')
     e = embs[0]
     sts = e.stmts()
@@ -416,14 +481,60 @@ def _is_canonical_walk(sel: N, subject_alias: str) -> bool:
 
 
 # ------------------------------------------------------------------------------------------------
-KIND = {'ready': 'ready', 'running': 'running', 'creating': 'creating'}
+def _flag_vars(a: N, fname: str, want_args: List[str]) -> Tuple[List[str], List[str]]:
+    """(variables holding fname(<the procedure's own arguments>), variables holding fname(<something else>))."""
+    ok, wrong = [], []
+    for v, defs in cf.assigned_from(a.body).items():
+        hits = [e for e, _ in defs if e.kind == 'func' and e.name == fname]
+        if not hits:
+            continue
+        good = [e for e in hits if [text(x).lower() for x in e.args] == want_args]
+        if len(good) == len(defs):
+            ok.append(v)
+        else:
+            wrong.append(v)
+    return ok, wrong
+
+
+def _not_cancelled(guard: Any, flags: List[str], fname: str, want_args: List[str]) -> bool:
+    for x, pol in cf.guard_literals(guard):
+        if pol:
+            continue
+        if sr.is_var(x) and x.parts[0].lower() in flags:
+            return True
+        if x.kind == 'func' and x.name == fname and [text(y).lower() for y in x.args] == want_args:
+            return True
+    return False
+
+
+def _writes_via_call(prog: sf.SqlProgram, a: N, table: str) -> bool:
+    for st in sf.all_statements(a.body):
+        if st.kind == 'call':
+            cal = prog.routines.get(st.name)
+            if cal is None or any(t.lower() == table for s2 in sf.all_statements(cal.ast.body) for t, _ in sf.written_tables(s2)):
+                return True
+    return False
 
 
 def r4_cancel(ctx: Ctx, prog: sf.SqlProgram) -> None:
+    soft: List[str] = []
     for rname, group_level in (('cancel_job_group', True), ('cancel_batch', False)):
         r = prog.routine(rname)
         a = r.ast
-        # guard
+        pnames = [p[1].lower() for p in getattr(a, 'params', [])]
+        ctx.need(len(pnames) >= (2 if group_level else 1), f'{rname}: parameters {pnames}')
+        fname = 'IS_JOB_GROUP_CANCELLED' if group_level else 'IS_BATCH_CANCELLED'
+        want_args = pnames[:2] if group_level else pnames[:1]
+        flags, wrong = _flag_vars(a, fname, want_args)
+        # the cancellation predicate is evaluated on the procedure's own arguments
+        calls = [x for st in sf.all_statements(a.body) for x in st.walk() if x.kind == 'func' and x.name == fname]
+        c_flag = f'{r.file}::{rname}::cur_cancelled'
+        if wrong or any([text(y).lower() for y in x.args] != want_args for x in calls):
+            ctx.bad('R4', c_flag, f'the already-cancelled test is not computed from the cancellation predicate of the procedure\'s own arguments ({fname}({", ".join(want_args)}))', r.file, r.line)
+        elif calls:
+            ctx.ok('R4', c_flag)
+        else:
+            soft.append(f'{rname}: how the procedure finds out that the {"group" if group_level else "batch"} is already cancelled is not recognised ({fname} is not called)')
         found_user = found_canc = found_mark = False
         for st, guard in sf.guarded_statements(a.body):
             wt = sf.written_tables(st)
@@ -431,46 +542,112 @@ def r4_cancel(ctx: Ctx, prog: sf.SqlProgram) -> None:
                 continue
             tbls = [t.lower() for t, _ in wt]
             gtxt = [('' if pol else 'NOT ') + text(c) for c, pol in guard]
-            guarded = any(pol and re.search(r'\(NOT cur_cancelled\)', text(c)) for c, pol in guard)
             cons = f'{r.file}::{rname}::{st.kind} {tbls[0]}'
-            if tbls[0] in (USER_TBL, CANC_TBL, 'job_groups_cancelled'):
-                ctx.check(guarded, 'R4', cons + '::guard', f'write is not guarded by NOT cur_cancelled (path condition: {gtxt}); repeating the cancellation would move the counters again',
+            if tbls[0] in (USER_TBL, CANC_TBL, 'job_groups_cancelled') and calls and not wrong:
+                ctx.check(_not_cancelled(guard, flags, fname, want_args), 'R4', cons + '::guard', f'write is not guarded by NOT already-cancelled (path condition: {gtxt}); repeating the cancellation would move the counters again',
                           r.file, r.line_of(st))
             if st.kind == 'insert' and tbls[0] == USER_TBL:
                 found_user = True
-                _check_cancel_user_insert(ctx, r, rname, st, group_level)
+                _check_cancel_user_insert(ctx, prog, r, rname, st, group_level, soft)
             elif st.kind == 'insert' and tbls[0] == CANC_TBL:
                 found_canc = True
-                _check_cancel_group_insert(ctx, r, rname, st)
+                _check_cancel_group_insert(ctx, prog, r, rname, st, soft)
             elif st.kind == 'delete' and tbls[0] == CANC_TBL:
                 found_canc = True
-                ok = sr.has_eq(st.where, 'batch_id', 'in_batch_id') and len(sf.conjuncts(st.where)) == 1
-                ctx.check(ok and not group_level, 'R4', cons + '::delete scope', f'cancellable rows deleted with WHERE {text(st.where)}; only a whole-batch cancel may drop all rows of its own batch',
-                          r.file, r.line_of(st))
+                ec = cf.eq_closure(st, prog.tables, _routine_vars(a), conj=list(sf.conjuncts(st.where)), alias={CANC_TBL: CANC_TBL})
+                whole_batch = ec.related(('col', CANC_TBL, 'batch_id'), ('var', pnames[0])) and not ec.other and len(ec.classes) == 1
+                if whole_batch and not group_level:
+                    ctx.ok('R4', cons + '::delete scope')
+                elif group_level or st.where is None or not ec.related(('col', CANC_TBL, 'batch_id'), ('var', pnames[0])):
+                    ctx.bad('R4', cons + '::delete scope', f'cancellable rows deleted with WHERE {text(st.where)}; only a whole-batch cancel may drop all rows of its own batch', r.file, r.line_of(st))
+                else:
+                    soft.append(f'{rname}: DELETE FROM {CANC_TBL} WHERE {text(st.where)[:100]}: scope not recognised')
             elif st.kind == 'insert' and tbls[0] == 'job_groups_cancelled':
                 found_mark = True
         ctx.need(found_mark, f'{rname}: the INSERT INTO job_groups_cancelled that marks the cancellation was not found')
-        ctx.check(found_user, 'R4', f'{r.file}::{rname}::moves live counts', f'{rname} marks the {"group" if group_level else "batch"} cancelled but never moves its cancellable '
-                  f'ready/running/creating counts out of {USER_TBL}: the scheduler keeps counting cancelled jobs as runnable', r.file, r.line)
-        ctx.check(found_canc, 'R4', f'{r.file}::{rname}::clears cancellable', f'{rname} marks the {"group" if group_level else "batch"} cancelled but leaves its rows in {CANC_TBL} '
-                  'counted as cancellable', r.file, r.line)
-        # cur_cancelled is computed from the right predicate
-        ok = False
-        for st in a.body:
-            if st.kind == 'select' and st.into and text(st.into[0]).lower() == 'cur_cancelled':
-                f = st.cols[0][0]
-                if group_level:
-                    ok = f.kind == 'func' and f.name == 'IS_JOB_GROUP_CANCELLED' and [text(x).lower() for x in f.args] == ['in_batch_id', 'in_job_group_id']
-                else:
-                    ok = f.kind == 'func' and f.name == 'IS_BATCH_CANCELLED' and [text(x).lower() for x in f.args] == ['in_batch_id']
-        ctx.check(ok, 'R4', f'{r.file}::{rname}::cur_cancelled', 'cur_cancelled is not computed from the cancellation predicate of the procedure\'s own arguments', r.file, r.line)
+        for found, table, key, msg in ((found_user, USER_TBL, 'moves live counts', f'{rname} marks the {"group" if group_level else "batch"} cancelled but never moves its cancellable '
+                                        f'ready/running/creating counts out of {USER_TBL}: the scheduler keeps counting cancelled jobs as runnable'),
+                                       (found_canc, CANC_TBL, 'clears cancellable', f'{rname} marks the {"group" if group_level else "batch"} cancelled but leaves its rows in {CANC_TBL} counted as cancellable')):
+            if found:
+                ctx.ok('R4', f'{r.file}::{rname}::{key}')
+            elif _writes_via_call(prog, a, table):
+                soft.append(f'{rname}: {table} is written by a called procedure: not followed by this rule')
+            else:
+                ctx.bad('R4', f'{r.file}::{rname}::{key}', msg, r.file, r.line)
+    if soft:
+        raise AnalysisError(soft[0])
 
 
-def _check_cancel_user_insert(ctx: Ctx, r: sf.Routine, rname: str, st: N, group_level: bool) -> None:
+def _amount_side(ins_e: N, uvars: Dict[str, N]) -> Tuple[int, N, Optional[str]]:
+    """(sign, term, summed column | None) of an inserted amount  [-1 *] [(@v :=] [CAST(] [COALESCE(] SUM(col) .."""
+    s1, x1 = sr.signed_term(ins_e, uvars)
+    inner = sr.unwrap_sum(x1)
+    return s1, x1, (inner.parts[-1].lower() if inner is not None and inner.kind == 'col' else None)
+
+
+def _check_on_dup(ctx: Ctx, cons: str, col: str, ins_e: N, dup: Dict[str, N], uvars: Dict[str, N], file: str, line: int, soft: List[str], resolve: Any = None, differ: Any = None) -> None:
+    """ON DUPLICATE KEY UPDATE col = col + <what the insert side inserts>.  `col + VALUES(col)`, operand order and user-variable spelling are
+    seen through; a right-hand side that does not mention col overwrites the counter (violation); anything else is declined."""
+    c = cons + '::on-duplicate'
+    d = dup.get(col)
+    if d is None:
+        ctx.bad('R3', c, f'{col} is inserted but not updated ON DUPLICATE KEY: an existing token row keeps its old amount', file, line)
+        return
+    inc = sr.dup_increment(col, d, uvars)
+    if inc is None:
+        if not any(x.kind == 'col' and x.parts[-1].lower() == col for x in d.walk()):
+            ctx.bad('R3', c, f'ON DUPLICATE KEY UPDATE `{col} = {text(d)}` overwrites the counter instead of adding to it: an existing token row and a fresh one would end up with different amounts', file, line)
+        else:
+            soft.append(f'{cons}: ON DUPLICATE KEY UPDATE `{text(d)[:80]}` is not of the form {col} + amount')
+        return
+    s2, x2 = inc
+    if x2.kind == 'values_fn' and x2.col.lower() == col:
+        if s2 == 1:
+            ctx.ok('R3', c)
+        else:
+            ctx.bad('R3', c, f'ON DUPLICATE KEY UPDATE `{text(d)}` subtracts the inserted value instead of adding it', file, line)
+        return
+    s1, x1 = sr.signed_term(ins_e, uvars)
+    a1, a2 = (resolve(x1), resolve(x2)) if resolve is not None else (x1, x2)
+    if s1 == s2 and text(a1) == text(a2):
+        ctx.ok('R3', c)
+        return
+    verdict = differ(a1, s1, a2, s2) if differ is not None else (_amounts_differ(a1, s1, a2, s2) or None)
+    if verdict is False:
+        ctx.ok('R3', c)
+    elif verdict:
+        ctx.bad('R3', c, f'ON DUPLICATE KEY UPDATE for {col} is `{text(d)}`, not `{col} = {col} + <the inserted amount {text(ins_e)[:60]}>`: an existing token row and a fresh one would receive different amounts', file, line)
+    else:
+        soft.append(f'{cons}: cannot compare the inserted amount `{text(ins_e)[:60]}` with the on-duplicate increment `{text(d)[:60]}`')
+
+
+def _amounts_differ(a1: N, s1: int, a2: N, s2: int) -> bool:
+    """Positive evidence that two amounts differ: both are plain [SUM of a] column / variable and the columns or signs differ."""
+    def base(x: N) -> Optional[str]:
+        inner = sr.unwrap_sum(x)
+        y = inner if inner is not None else x
+        if y.kind == 'cast':
+            y = y.arg
+        if y.kind == 'col':
+            return ('sum:' if inner is not None else '') + y.parts[-1].lower()
+        if y.kind == 'lit':
+            return f'lit:{y.value!r}'
+        return None
+    b1, b2 = base(a1), base(a2)
+    if b1 is None or b2 is None:
+        return False
+    return b1 != b2 or s1 != s2
+
+
+def _check_cancel_user_insert(ctx: Ctx, prog: sf.SqlProgram, r: sf.Routine, rname: str, st: N, group_level: bool, soft: List[str]) -> None:
     ins, dup, uvars = sr.insert_colmap(st)
     sel = st.select
     ctx.need(sel is not None, f'{rname}: user counter insert is not INSERT..SELECT')
+    a = r.ast
+    pnames = [p[1].lower() for p in getattr(a, 'params', [])]
+    variables = _routine_vars(a)
     cons = f'{r.file}::{rname}::insert {USER_TBL}'
+    line = r.line_of(st)
     want = {
         'n_ready_jobs': (-1, 'n_ready_cancellable_jobs'), 'ready_cores_mcpu': (-1, 'ready_cancellable_cores_mcpu'),
         'n_running_jobs': (-1, 'n_running_cancellable_jobs'), 'running_cores_mcpu': (-1, 'running_cancellable_cores_mcpu'),
@@ -481,238 +658,428 @@ def _check_cancel_user_insert(ctx: Ctx, r: sf.Routine, rname: str, st: N, group_
     for col, (sign, src) in want.items():
         c2 = f'{cons}.{col}'
         if col not in ins:
-            ctx.bad('R4', c2, f'{col} is not adjusted when cancelling (cancellable {src} would stay counted)', r.file, r.line_of(st))
+            ctx.bad('R4', c2, f'{col} is not adjusted when cancelling (cancellable {src} would stay counted)', r.file, line)
             continue
-        s1, x1 = sr.signed_term(ins[col], uvars)
-        inner = sr.unwrap_sum(x1)
-        got_src = text(inner).lower().split('.')[-1] if inner is not None else text(x1)
-        ctx.check(s1 == sign and got_src == src, 'R4', c2,
-                  f'inserted amount is {"+" if s1 > 0 else "-"}SUM({got_src}); cancelling must move {"+" if sign > 0 else "-"}SUM({src})', r.file, r.line_of(st))
-        inc = sr.dup_increment(col, dup[col], uvars) if col in dup else None
-        ok = inc is not None and inc[0] == s1 and text(inc[1]) == text(x1)
-        ctx.check(ok, 'R3', c2 + '::on-duplicate', f'ON DUPLICATE KEY UPDATE `{text(dup.get(col))}` does not apply the same amount as the inserted row', r.file, r.line_of(st))
+        s1, x1, got_src = _amount_side(ins[col], uvars)
+        if got_src is None:
+            soft.append(f'{rname}: the amount inserted into {USER_TBL}.{col}, `{text(ins[col])[:80]}`, is not recognisably +/- SUM(<cancellable column>)')
+        else:
+            ctx.check(s1 == sign and got_src == src, 'R4', c2,
+                      f'inserted amount is {"+" if s1 > 0 else "-"}SUM({got_src}); cancelling must move {"+" if sign > 0 else "-"}SUM({src})', r.file, line)
+        _check_on_dup(ctx, c2, col, ins[col], dup, uvars, r.file, line, soft)
     extra = [c for c in dup if c not in want]
-    ctx.check(not extra, 'R3', cons + '::one-sided', f'columns updated on duplicate key only: {extra}', r.file, r.line_of(st))
-    # source: committed updates of this batch (and group)
-    names = [t.lower() for t in sf.table_names(sel.frm)]
-    conj = [text(c).lower() for c in sf.conjuncts(sel.where)]
-    on = []
-    for j in sel.frm.joins:
-        on += [text(c).lower() for c in sf.conjuncts(j.on)]
-    committed = any(c in ('batch_updates.committed', 'committed', '(batch_updates.committed = 1)') for c in conj + on)
-    joined = (f'({CANC_TBL}.batch_id = batch_updates.batch_id)' in on or f'(batch_updates.batch_id = {CANC_TBL}.batch_id)' in on) and \
-             (f'({CANC_TBL}.update_id = batch_updates.update_id)' in on or f'(batch_updates.update_id = {CANC_TBL}.update_id)' in on)
-    ctx.check(names[0] == CANC_TBL and 'batch_updates' in names and committed and joined, 'R4', cons + '::committed only',
-              'the amounts moved are not restricted to cancellable rows of committed updates (join batch_updates on batch_id, update_id and require committed)',
-              r.file, r.line_of(st))
-    scope = sr.has_eq(sel.where, f'{CANC_TBL}.batch_id', 'in_batch_id', strip_qual=False) or sr.has_eq(sel.where, 'batch_id', 'in_batch_id')
-    if group_level:
-        scope = scope and sr.has_eq(sel.where, 'job_group_id', 'in_job_group_id')
+    ctx.check(not extra, 'R3', cons + '::one-sided', f'columns updated on duplicate key only: {extra}', r.file, line)
+    # source: committed updates of this batch (and group) - by structure: aliases, operand order, conjunct order and JOIN spelling do not matter
+    alias = cf.alias_map(sel)
+    ec = cf.eq_closure(sel, prog.tables, variables)
+    conj = cf.all_conjuncts(sel)
+    bu = 'batch_updates'
+    committed = any((lambda x: x is not None and x.kind == 'col' and cf.term_of(x, alias, prog.tables, variables) in (('col', bu, 'committed'), ('col', '?', 'committed')))(cf.flag_set(c)) for c in conj)
+    mentions = any(x.kind == 'col' and x.parts[-1].lower() == 'committed' for c in cf.all_conjuncts(sel, inner_only=False) for x in c.walk())
+    joined = ec.related(('col', CANC_TBL, 'batch_id'), ('col', bu, 'batch_id')) and ec.related(('col', CANC_TBL, 'update_id'), ('col', bu, 'update_id'))
+    c2 = cons + '::committed only'
+    if CANC_TBL in alias.values() and bu in alias.values() and committed and joined:
+        ctx.ok('R4', c2)
+    elif CANC_TBL in alias.values() and (bu not in alias.values() or not mentions):
+        ctx.bad('R4', c2, 'the amounts moved are not restricted to cancellable rows of committed updates (join batch_updates on batch_id, update_id and require committed)', r.file, line)
     else:
-        scope = scope and not any('job_group_id' in c for c in conj)
-    ctx.check(scope, 'R4', cons + '::scope', f'source rows are not exactly those of the cancelled {"group" if group_level else "batch"}: WHERE {text(sel.where)}', r.file, r.line_of(st))
-    grp = sorted(text(g).lower().split('.')[-1] for g in sel.group)
-    ctx.check(grp == ['inst_coll', 'user'] and text(ins.get('user')).lower().split('.')[-1] == 'user' and text(ins.get('inst_coll')).lower().split('.')[-1] == 'inst_coll',
-              'R4', cons + '::grouping', f'sums are not grouped and keyed by (user, inst_coll): GROUP BY {grp}', r.file, r.line_of(st))
+        soft.append(f'{rname}: how the rows summed into {USER_TBL} are restricted to committed updates is not recognised')
+    c2 = cons + '::scope'
+    tb, tg = ('col', CANC_TBL, 'batch_id'), ('col', CANC_TBL, 'job_group_id')
+    in_b = ec.related(tb, ('var', pnames[0]))
+    in_g = group_level and ec.related(tg, ('var', pnames[1]))
+    g_part = ec.partners(tg)
+    g_other = any(x.kind == 'col' and x.parts[-1].lower() == 'job_group_id' for c in ec.other for x in c.walk())
+    if in_b and (in_g if group_level else (not g_part and not g_other)):
+        ctx.ok('R4', c2)
+    elif not any(('var', pnames[0]) in cl for cl in ec.classes) or (group_level and not any(('var', pnames[1]) in cl for cl in ec.classes) and not g_other):
+        ctx.bad('R4', c2, f'source rows are not exactly those of the cancelled {"group" if group_level else "batch"}: WHERE {text(sel.where)}', r.file, line)
+    else:
+        soft.append(f'{rname}: the scope of the rows summed into {USER_TBL} (WHERE {text(sel.where)[:100]}) is not recognised')
+    grp = sorted(text(g).lower().split('.')[-1].strip('`') for g in sel.group)
+    ctx.check(grp == ['inst_coll', 'user'] and text(ins.get('user')).lower().split('.')[-1].strip('`') == 'user' and text(ins.get('inst_coll')).lower().split('.')[-1].strip('`') == 'inst_coll',
+              'R4', cons + '::grouping', f'sums are not grouped and keyed by (user, inst_coll): GROUP BY {grp}', r.file, line)
 
 
-def _check_cancel_group_insert(ctx: Ctx, r: sf.Routine, rname: str, st: N) -> None:
+def _check_cancel_group_insert(ctx: Ctx, prog: sf.SqlProgram, r: sf.Routine, rname: str, st: N, soft: List[str]) -> None:
     ins, dup, uvars = sr.insert_colmap(st)
     sel = st.select
+    a = r.ast
+    pnames = [p[1].lower() for p in getattr(a, 'params', [])]
+    variables = _routine_vars(a)
     cons = f'{r.file}::{rname}::insert {CANC_TBL}'
+    line = r.line_of(st)
     ctx.need(sel is not None, f'{rname}: cancellable insert is not INSERT..SELECT')
     lat = [t for t in sf.from_tables(sel.frm) if t.kind == 'derived']
     ctx.need(len(lat) == 1, f'{rname}: lateral per-(update, inst_coll) sum not found')
     lsel = lat[0].select
-    lcols = {(al or text(c)).lower(): c for c, al in lsel.cols}
+    lcols = {(al or text(c).split('.')[-1]).lower().strip('`'): c for c, al in lsel.cols}
     for col in CANC_COUNTERS:
         c2 = f'{cons}.{col}'
         if col not in ins:
-            ctx.bad('R4', c2, f'{col} of the cancelled group is not removed from its ancestors', r.file, r.line_of(st))
+            ctx.bad('R4', c2, f'{col} of the cancelled group is not removed from its ancestors', r.file, line)
             continue
         s1, x1 = sr.signed_term(ins[col], uvars)
         src = None
         if x1.kind == 'col' and x1.parts[-1].lower() in lcols:
             inner = sr.unwrap_sum(lcols[x1.parts[-1].lower()])
-            src = text(inner).lower().split('.')[-1] if inner is not None else None
-        ctx.check(s1 == -1 and src == col, 'R4', c2, f'inserted amount is sign {s1} of SUM({src}); must be -SUM({col}) of the cancelled group', r.file, r.line_of(st))
-        inc = sr.dup_increment(col, dup[col], uvars) if col in dup else None
-        ctx.check(inc is not None and inc[0] == s1 and text(inc[1]) == text(x1), 'R3', c2 + '::on-duplicate',
-                  f'ON DUPLICATE KEY UPDATE `{text(dup.get(col))}` does not apply the same amount as the inserted row', r.file, r.line_of(st))
+            src = inner.parts[-1].lower() if inner is not None and inner.kind == 'col' else None
+        if src is None:
+            soft.append(f'{rname}: the amount inserted into {CANC_TBL}.{col}, `{text(ins[col])[:80]}`, is not recognisably - SUM(<column of the lateral sum>)')
+        else:
+            ctx.check(s1 == -1 and src == col, 'R4', c2, f'inserted amount is sign {s1} of SUM({src}); must be -SUM({col}) of the cancelled group', r.file, line)
+        _check_on_dup(ctx, c2, col, ins[col], dup, uvars, r.file, line, soft)
     # lateral: rows of the cancelled group itself, per (update_id, inst_coll)
-    lw = lsel.where
-    ok_l = sf.table_names(lsel.frm) == [CANC_TBL] and sr.has_eq(lw, 'batch_id', 'job_group_self_and_ancestors.batch_id') and \
-        sr.has_eq(lw, 'job_group_id', 'job_group_self_and_ancestors.job_group_id') and sorted(text(g).lower().split('.')[-1] for g in lsel.group) == ['inst_coll', 'update_id']
-    ctx.check(ok_l, 'R4', cons + '::source', 'the per-(update, inst_coll) sums are not those of the cancelled group\'s own cancellable rows', r.file, r.line_of(st))
-    _check_fanout(ctx, 'R4', cons, st, ins, r.file, r.line_of(st), batch='in_batch_id', group='in_job_group_id', update='update_id', inst_coll=None)
-    ctx.check(text(ins.get('inst_coll')).lower().split('.')[-1] == 'inst_coll' and text(ins.get('update_id')).lower().split('.')[-1] == 'update_id', 'R4', cons + '::keys',
-              'ancestor rows are not keyed by the (update_id, inst_coll) the sums were taken over', r.file, r.line_of(st))
+    WALK = 'job_group_self_and_ancestors'
+    both = dict(cf.alias_map(sel))
+    both.update(cf.alias_map(lsel))
+    lec = cf.eq_closure(lsel, prog.tables, variables, conj=list(sf.conjuncts(lsel.where)), alias=both)
+    grp = sorted(text(g).lower().split('.')[-1].strip('`') for g in lsel.group)
+    own = lec.related(('col', CANC_TBL, 'batch_id'), ('col', WALK, 'batch_id')) and lec.related(('col', CANC_TBL, 'job_group_id'), ('col', WALK, 'job_group_id'))
+    c2 = cons + '::source'
+    if [t.lower() for t in sf.table_names(lsel.frm)] == [CANC_TBL] and own and grp == ['inst_coll', 'update_id'] and not lec.other:
+        ctx.ok('R4', c2)
+    elif [t.lower() for t in sf.table_names(lsel.frm)] == [CANC_TBL] and not lec.other and (lec.related(('col', CANC_TBL, 'job_group_id'), ('col', WALK, 'ancestor_id')) or grp != ['inst_coll', 'update_id']
+                                                                                          or not lec.partners(('col', CANC_TBL, 'job_group_id'))):
+        ctx.bad('R4', c2, f'the per-(update, inst_coll) sums are not those of the cancelled group\'s own cancellable rows (WHERE {text(lsel.where)}, GROUP BY {grp})', r.file, line)
+    else:
+        soft.append(f'{rname}: the lateral sum over {CANC_TBL} (WHERE {text(lsel.where)[:100]}) is not recognised')
+    _check_fanout(ctx, 'R4', cons, st, ins, r.file, line, batch=[('var', pnames[0])], group=[('var', pnames[1])] if len(pnames) > 1 else [],
+                  update=[('col', '?', 'update_id')], variables=variables, schema=prog.tables, soft=soft)
+    ctx.check(text(ins.get('inst_coll')).lower().split('.')[-1].strip('`') == 'inst_coll' and text(ins.get('update_id')).lower().split('.')[-1].strip('`') == 'update_id', 'R4', cons + '::keys',
+              'ancestor rows are not keyed by the (update_id, inst_coll) the sums were taken over', r.file, line)
 
 
 # ------------------------------------------------------------------------------------------------
+def _into_sources(a: N, schema: Dict[str, List[str]], variables: List[str]) -> Dict[str, List[Tuple[str, str, Any]]]:
+    """routine variable -> [(table, 'col:<column>' | 'sum:<column>', equality closure of the SELECT)] for `SELECT <col | SUM(col)> .. INTO v` over one table."""
+    out: Dict[str, List[Tuple[str, str, Any]]] = {}
+    for v, defs in cf.assigned_from(a.body).items():
+        for e, st in defs:
+            if st is None or st.frm is None:
+                out.setdefault(v, []).append(('?', '?', None))
+                continue
+            tabs = [t.lower() for t in sf.table_names(st.frm)]
+            inner = sr.unwrap_sum(e)
+            y = inner if inner is not None else e
+            if len(tabs) == 1 and y.kind == 'col':
+                out.setdefault(v, []).append((tabs[0], ('sum:' if inner is not None else 'col:') + y.parts[-1].lower().strip('`'), cf.eq_closure(st, schema, variables)))
+            else:
+                out.setdefault(v, []).append(('?', '?', None))
+    return out
+
+
+def _commit_locals(a: N, prog: sf.SqlProgram) -> Tuple[List[str], List[str], List[str]]:
+    """The locals of commit_batch_update, identified by what is read INTO them (never by name): (committed flag of this update, its declared
+    number of jobs, the number of jobs staged for it in the root group)."""
+    pnames = [p[1].lower() for p in getattr(a, 'params', [])]
+    if len(pnames) < 2:
+        return [], [], []
+    B, U = pnames[0], pnames[1]
+    srcs = _into_sources(a, prog.tables, _routine_vars(a))
+
+    def is_src(v: str, table: str, what: str, keys: List[Tuple[str, Any]]) -> bool:
+        ds = srcs.get(v, [])
+        return bool(ds) and all(t == table and w == what and ec_ is not None and all(ec_.related(('col', table, k), tt) for k, tt in keys) for t, w, ec_ in ds)
+    key_bu = [('batch_id', ('var', B)), ('update_id', ('var', U))]
+    return ([v for v in srcs if is_src(v, 'batch_updates', 'col:committed', key_bu)], [v for v in srcs if is_src(v, 'batch_updates', 'col:n_jobs', key_bu)],
+            [v for v in srcs if is_src(v, STAGE_TBL, 'sum:n_jobs', key_bu + [('job_group_id', ('lit', '0'))])])
+
+
 def r7_commit(ctx: Ctx, prog: sf.SqlProgram) -> None:
     r = prog.routine('commit_batch_update')
     a = r.ast
+    soft: List[str] = []
+    pnames = [p[1].lower() for p in getattr(a, 'params', [])]
+    ctx.need(len(pnames) >= 2, f'commit_batch_update: parameters {pnames}')
+    B, U = pnames[0], pnames[1]
+    variables = _routine_vars(a)
     hits = [(st, g) for st, g in sf.guarded_statements(a.body) if st.kind == 'insert' and st.table.lower() == USER_TBL]
     ctx.need(len(hits) == 1, f'commit_batch_update: expected one insert into {USER_TBL}, found {len(hits)}')
     st, guard = hits[0]
     cons = f'{r.file}::commit_batch_update::insert {USER_TBL}'
+    line = r.line_of(st)
     ins, dup, uvars = sr.insert_colmap(st)
     sel = st.select
     ctx.need(sel is not None, 'commit_batch_update: hand-over is not INSERT..SELECT')
     for col in ('n_ready_jobs', 'ready_cores_mcpu'):
         c2 = f'{cons}.{col}'
         if col not in ins:
-            ctx.bad('R7', c2, f'{col} staged by the update is never added to the user counters', r.file, r.line_of(st))
+            ctx.bad('R7', c2, f'{col} staged by the update is never added to the user counters', r.file, line)
             continue
-        s1, x1 = sr.signed_term(ins[col], uvars)
-        inner = sr.unwrap_sum(x1)
-        src = text(inner).lower().split('.')[-1] if inner is not None else text(x1)
-        ctx.check(s1 == 1 and src == col, 'R7', c2, f'hands over {"+" if s1 > 0 else "-"}SUM({src}) of staging, must be +SUM({col})', r.file, r.line_of(st))
-        inc = sr.dup_increment(col, dup[col], uvars) if col in dup else None
-        ctx.check(inc is not None and inc[0] == 1 and text(inc[1]) == text(x1), 'R3', c2 + '::on-duplicate',
-                  f'ON DUPLICATE KEY UPDATE `{text(dup.get(col))}` does not add the same amount as the inserted row', r.file, r.line_of(st))
+        s1, x1, src = _amount_side(ins[col], uvars)
+        if src is None:
+            soft.append(f'commit_batch_update: the amount inserted into {USER_TBL}.{col}, `{text(ins[col])[:80]}`, is not recognisably SUM(<staging column>)')
+        else:
+            ctx.check(s1 == 1 and src == col, 'R7', c2, f'hands over {"+" if s1 > 0 else "-"}SUM({src}) of staging, must be +SUM({col})', r.file, line)
+        _check_on_dup(ctx, c2, col, ins[col], dup, uvars, r.file, line, soft)
     extra = [c for c in list(ins) + list(dup) if c not in ('user', 'inst_coll', 'token', 'n_ready_jobs', 'ready_cores_mcpu')]
-    ctx.check(not extra, 'R7', cons + '::columns', f'commit touches counters that staging does not carry: {extra}', r.file, r.line_of(st))
-    w = sel.where
-    ok = sf.table_names(sel.frm)[0].lower() == STAGE_TBL and sr.has_eq(w, 'batch_id', 'in_batch_id') and sr.has_eq(w, 'update_id', 'in_update_id') and sr.has_eq(w, 'job_group_id', '0')
-    ctx.check(ok, 'R7', cons + '::source', f'staging rows summed are not exactly the root group (job_group_id = 0) of (in_batch_id, in_update_id): WHERE {text(w)}; '
-              'ancestors already include their descendants, so any other scope double counts or misses jobs', r.file, r.line_of(st))
-    grp = sorted(text(g).lower().split('.')[-1] for g in sel.group)
-    ctx.check(grp == ['inst_coll', 'user'], 'R7', cons + '::grouping', f'GROUP BY {grp}, expected (user, inst_coll)', r.file, r.line_of(st))
-    gtxt = [(text(c), pol) for c, pol in guard]
-    once = ('cur_update_committed', False) in gtxt and any(pol and 'staging_n_jobs' in t and 'expected_n_jobs' in t for t, pol in gtxt)
-    ctx.check(once, 'R7', cons + '::once', f'hand-over is not confined to the not-yet-committed, job-count-matches branch (path condition {gtxt})', r.file, r.line_of(st))
+    ctx.check(not extra, 'R7', cons + '::columns', f'commit touches counters that staging does not carry: {extra}', r.file, line)
+    alias = cf.alias_map(sel)
+    ec = cf.eq_closure(sel, prog.tables, variables)
+    tS = lambda c: ('col', STAGE_TBL, c)  # noqa: E731
+    ok = STAGE_TBL in alias.values() and ec.related(tS('batch_id'), ('var', B)) and ec.related(tS('update_id'), ('var', U)) and ec.related(tS('job_group_id'), ('lit', '0'))
+    c2 = cons + '::source'
+    if ok and not ec.other:
+        ctx.ok('R7', c2)
+    elif STAGE_TBL in alias.values() and not ec.other:
+        ctx.bad('R7', c2, f'staging rows summed are not exactly the root group (job_group_id = 0) of ({B}, {U}): WHERE {text(sel.where)}; '
+                'ancestors already include their descendants, so any other scope double counts or misses jobs', r.file, line)
+    else:
+        soft.append(f'commit_batch_update: the scope of the staging rows handed over (WHERE {text(sel.where)[:100]}) is not recognised')
+    grp = sorted(text(g).lower().split('.')[-1].strip('`') for g in sel.group)
+    ctx.check(grp == ['inst_coll', 'user'], 'R7', cons + '::grouping', f'GROUP BY {grp}, expected (user, inst_coll)', r.file, line)
+    # once: in the branch where the update was not yet committed and the staged job count matches - the locals are identified by what is read INTO them
+    committed_vars, expected_vars, staged_vars = _commit_locals(a, prog)
+    lits = cf.guard_literals(guard)
+    gtxt = [(text(c), pol) for c, pol in lits]
+
+    def not_committed(ls: Any) -> bool:
+        return any(not pol and sr.is_var(x) and x.parts[0].lower() in committed_vars for x, pol in ls)
+
+    def count_matches(ls: Any) -> bool:
+        for x, pol in ls:
+            if pol and x.kind == 'bin' and x.op in ('=', '<=>') and sr.is_var(x.left) and sr.is_var(x.right):
+                l, r_ = x.left.parts[0].lower(), x.right.parts[0].lower()
+                if (l in staged_vars and r_ in expected_vars) or (l in expected_vars and r_ in staged_vars):
+                    return True
+        return False
+    c2 = cons + '::once'
+    if not committed_vars or not expected_vars or not staged_vars:
+        soft.append('commit_batch_update: the locals holding batch_updates.committed / batch_updates.n_jobs / the staged job count of this update are not recognised '
+                    f'(found {committed_vars}, {expected_vars}, {staged_vars})')
+    elif not_committed(lits) and count_matches(lits):
+        ctx.ok('R7', c2)
+    else:
+        ctx.bad('R7', c2, f'hand-over is not confined to the not-yet-committed, job-count-matches branch (path condition {gtxt})', r.file, line)
     # committed flag is set in the same branch
-    sets_committed = [(s, g) for s, g in sf.guarded_statements(a.body) if s.kind == 'update' and sf.table_names(s.frm)[:1] == ['batch_updates']
-                      and any(text(c).lower().split('.')[-1] == 'committed' and text(v) == '1' for c, v in s.sets)]
-    ctx.check(len(sets_committed) == 1 and ('cur_update_committed', False) in [(text(c), p) for c, p in sets_committed[0][1]], 'R7',
-              f'{r.file}::commit_batch_update::set committed', 'batch_updates.committed is not set exactly once in the not-yet-committed branch', r.file, r.line)
+    c2 = f'{r.file}::commit_batch_update::set committed'
+    sets_committed = []
+    for s_, g in sf.guarded_statements(a.body):
+        if s_.kind == 'update' and [t.lower() for t, _ in sf.written_tables(s_)] == ['batch_updates']:
+            for c, v in s_.sets:
+                if c.kind == 'col' and c.parts[-1].lower().strip('`') == 'committed':
+                    sets_committed.append((s_, g, v))
+    if committed_vars:
+        good = [x for x in sets_committed if x[2].kind == 'lit' and (x[2].value is True or x[2].value == 1) and not isinstance(x[2].value, str)]
+        if len(sets_committed) == 1 and len(good) == 1 and not_committed(cf.guard_literals(good[0][1])):
+            ctx.ok('R7', c2)
+        elif len(sets_committed) != 1 or len(good) == 1:
+            ctx.bad('R7', c2, 'batch_updates.committed is not set exactly once in the not-yet-committed branch', r.file, r.line)
+        else:
+            soft.append(f'commit_batch_update: batch_updates.committed is set to `{text(sets_committed[0][2])}`: not recognised')
+    if soft:
+        raise AnalysisError(soft[0])
 
 
 # ------------------------------------------------------------------------------------------------
+_submission = None
+
+
+def submission() -> cs.Submission:
+    global _submission
+    if _submission is None:
+        _submission = cs.Submission()
+    return _submission
+
+
+_items_source = cs.items_source
+
+
 def r5_create_jobs(ctx: Ctx) -> None:
-    m = pf.load('batch/batch/front_end/front_end.py')
-    fn = m.func('_create_jobs')
-    file = m.rel
-    # (a) per-job tallies
-    ifs = [n for n in pf.walk_shallow(fn) if isinstance(n, ast.If) and any(isinstance(s, ast.Assign) and pf.nsrc(s.targets[0]) == 'state'
-                                                                          and pf.const_str(s.value) == 'Ready' for s in n.body)]
-    ctx.need(len(ifs) == 1, '_create_jobs: the branch assigning state = "Ready" was not found exactly once')
-    br = ifs[0]
-
-    def incs(stmts) -> Dict[str, str]:
-        out = {}
-        for s in stmts:
-            if isinstance(s, ast.AugAssign) and isinstance(s.op, ast.Add) and isinstance(s.target, ast.Subscript) and pf.nsrc(s.target.value) == 'icr':
-                out[pf.const_str(s.target.slice)] = pf.nsrc(s.value)
-        return out
-
-    top = incs(br.body)
-    nested = [s for s in br.body if isinstance(s, ast.If)]
-    canc: Dict[str, str] = {}
-    canc_test = ''
-    for s in nested:
-        canc.update(incs(s.body))
-        canc_test = pf.nsrc(s.test)
-    else_incs = incs(br.orelse)
-    else_state = [pf.const_str(s.value) for s in br.orelse if isinstance(s, ast.Assign) and pf.nsrc(s.targets[0]) == 'state']
+    """_create_jobs, decided on the function with its module-level helpers inlined (engines/c05submit.py).  No local name is compared with a
+    frozen string: the rows are found through the INSERT statements they are passed to, the tally mapping D is whatever the counter inserts
+    iterate with `.items()`, the loop variables are taken from that loop's target.  (a) The per-job tallies are a truth table over the atoms
+    the loop body tests (first update?, parent lists empty?, always_run?, opaque atoms for anything else); a FAIL needs a valuation of the known
+    atoms under which the tallies disagree with the inserted row whatever the opaque atoms are, otherwise the rule declines."""
+    S = submission()
+    m = S.m
+    file = S.m0.rel
+    path = S.m0.path
+    declines: List[str] = []
+    srows, crows = S.rows(STAGE_TBL), S.rows(CANC_TBL)
+    for t, r in ((STAGE_TBL, srows), (CANC_TBL, crows)):
+        ctx.need(not r.problem, f'_create_jobs: rows of the {t} insert: {r.problem}')
+    ssrc, csrc = _items_source(srows), _items_source(crows)
+    ctx.need(ssrc is not None and csrc is not None and ssrc[0] == csrc[0], '_create_jobs: the rows of the staging / cancellable inserts are not produced by `for (job_group, inst_coll), tallies in <one mapping>.items()`')
+    assert ssrc is not None
+    D = ssrc[0]
+    ctx.need(cs.binding_scope(m, srows.holder, D) is S.fn, f'_create_jobs: the tally mapping `{D}` is not a local of _create_jobs')
+    jl = S.job_loop()
+    ctx.need(jl.tally_dict == D, f'_create_jobs: the tally mapping `{D}` of the counter inserts is not the one the job loop was analysed for')
+    row = jl.row
+    ctx.need({'state', 'always_run', 'cores_mcpu', 'job_group_id', 'inst_coll', 'batch_id', 'update_id'} <= set(row), f'_create_jobs: the jobs insert does not bind state / always_run / cores_mcpu / job_group_id / inst_coll / batch_id / update_id (columns {sorted(row)})')
     cons = f'{file}::_create_jobs::tallies'
-    ctx.check(top == {'n_ready_jobs': '1', 'ready_cores_mcpu': 'cores_mcpu'}, 'R5', cons + '::ready',
-              f'a job inserted Ready adds {top} to the staged counters, expected n_ready_jobs += 1 and ready_cores_mcpu += cores_mcpu', m.path, br.lineno)
-    ctx.check(canc == {'n_ready_cancellable_jobs': '1', 'ready_cancellable_cores_mcpu': 'cores_mcpu'} and canc_test == 'not always_run', 'R5', cons + '::cancellable',
-              f'cancellable tallies {canc} under `{canc_test}`; expected += 1 / += cores_mcpu exactly when not always_run', m.path, br.lineno)
-    ctx.check(not else_incs and else_state == ['Pending'], 'R5', cons + '::pending', f'the non-Ready branch sets state {else_state} and adds {else_incs}', m.path, br.lineno)
-    # n_jobs += 1 unconditionally, once, in the loop body; icr keyed by the job's own (job_group_id, inst_coll)
-    par = m.parents()
-    loop = par.get(br)
-    while loop is not None and not isinstance(loop, (ast.For, ast.AsyncFor)):
-        loop = par.get(loop)
-    ctx.need(loop is not None, '_create_jobs: job loop not found')
-    njobs = [s for s in loop.body if isinstance(s, ast.AugAssign) and pf.nsrc(s.target) == "icr['n_jobs']"]
-    ctx.check(len(njobs) == 1 and pf.nsrc(njobs[0].value) == '1', 'R5', cons + '::n_jobs', 'icr["n_jobs"] is not incremented by exactly 1 per job at loop level', m.path, loop.lineno)
-    icr_def = [s for s in loop.body if isinstance(s, ast.Assign) and pf.nsrc(s.targets[0]) == 'icr']
-    ctx.need(len(icr_def) == 1, '_create_jobs: icr definition not found')
-    jobs_tuple = None
-    for n in pf.walk_shallow(loop):
-        if isinstance(n, ast.Call) and pf.dotted(n.func) == 'jobs_args.append' and isinstance(n.args[0], ast.Tuple):
-            jobs_tuple = n.args[0]
-    ctx.need(jobs_tuple is not None, '_create_jobs: jobs_args.append((...)) not found')
-    # bind jobs tuple to INSERT INTO jobs columns
-    embs = [e for e in sf.embedded_in(m) if e.qual.startswith('_create_jobs')]
-    by_table: Dict[str, Any] = {}
-    for e in embs:
-        for st in e.stmts():
-            if st.kind == 'insert':
-                by_table[st.table.lower()] = (e, st)
-    ctx.need('jobs' in by_table and STAGE_TBL in by_table and CANC_TBL in by_table, '_create_jobs: inserts into jobs / staging / cancellable not all found')
-    je, jst = by_table['jobs']
-    ctx.need(jst.cols is not None and len(jst.cols) == len(jobs_tuple.elts), '_create_jobs: jobs insert columns do not match the argument tuple')
-    jmap = {c.lower(): pf.nsrc(x) for c, x in zip(jst.cols, jobs_tuple.elts)}
-    key = pf.nsrc(icr_def[0].value)
-    ctx.check(key == f"inst_coll_resources[{jmap.get('job_group_id')}, {jmap.get('inst_coll')}]", 'R5', cons + '::key',
-              f'tallies are accumulated under `{key}` but the job row is inserted with job_group_id={jmap.get("job_group_id")}, inst_coll={jmap.get("inst_coll")}', m.path, icr_def[0].lineno)
-    ctx.check(jmap.get('state') == 'state' and jmap.get('always_run') == 'always_run' and jmap.get('cores_mcpu') == 'cores_mcpu', 'R5', cons + '::row',
-              f'job row columns state/always_run/cores_mcpu receive {jmap.get("state")}/{jmap.get("always_run")}/{jmap.get("cores_mcpu")}: the tallies describe a different job', m.path, jobs_tuple.lineno)
+    line = getattr(jl.row_site, 'lineno', 0)
+
+    def canon(e: ast.AST) -> str:
+        return pf.nsrc(cs.strip_markers(jl._root(e) if isinstance(e, ast.Name) else e))
+
+    def amounts(o: cs.Outcome, col: str) -> List[str]:
+        return sorted(('' if t.op == '+' else t.op) + canon(t.amount) for t in o.tallies if t.col == col)
+
+    def cores_of(o: cs.Outcome) -> str:
+        return canon(o.exprs['cores_mcpu'])
+
+    def fmt(o: cs.Outcome, cols: List[str]) -> str:
+        return '{' + ', '.join(f'{c}: {"+".join(amounts(o, c)) or "nothing"}' for c in cols) + '}'
+    unknown_cols = [t for o in jl.outcomes for t in o.tallies if t.col is None]
+    ctx.need(not unknown_cols, f'_create_jobs: a tally is accumulated under a key that is not a string constant (`{pf.nsrc(unknown_cols[0].node)[:60]}`)' if unknown_cols else '')
+    unknown_state = [o for o in jl.outcomes if not o.rejected and o.values.get('state') is cs.UNKNOWN]
+    ctx.need(not unknown_state, f'_create_jobs: the state inserted for a job is `{pf.nsrc(cs.strip_markers(unknown_state[0].exprs["state"]))[:60]}`, not a constant the analysis can follow' if unknown_state else '')
+
+    def v_ready(o, kv):
+        if o.values['state'] == 'Ready' and (amounts(o, 'n_ready_jobs') != ['1'] or amounts(o, 'ready_cores_mcpu') != [cores_of(o)]):
+            return f'a job inserted Ready adds {fmt(o, ["n_ready_jobs", "ready_cores_mcpu"])} to the staged counters [case: {cs.describe(kv)}], expected n_ready_jobs += 1 and ready_cores_mcpu += {cores_of(o)} (the cores_mcpu of the inserted row)'
+        return None
+
+    def v_canc(o, kv):
+        if o.values['state'] != 'Ready':
+            return None
+        want = ([], []) if kv.get(cs.A_ALWAYS, False) else (['1'], [cores_of(o)])
+        if (amounts(o, 'n_ready_cancellable_jobs'), amounts(o, 'ready_cancellable_cores_mcpu')) != want:
+            return (f'a Ready job with always_run = {int(kv.get(cs.A_ALWAYS, False))} adds {fmt(o, ["n_ready_cancellable_jobs", "ready_cancellable_cores_mcpu"])} to the cancellable tallies [case: {cs.describe(kv)}]; '
+                    'expected += 1 / += cores_mcpu exactly when not always_run')
+        return None
+
+    def v_pending(o, kv):
+        extra_ = sorted({t.col for t in o.tallies if t.col != 'n_jobs'})
+        if o.values['state'] != 'Ready' and extra_:
+            return f'a job inserted {o.values["state"]} adds {fmt(o, extra_)} to the ready tallies [case: {cs.describe(kv)}]: only Ready jobs are staged as ready'
+        return None
+
+    def v_njobs(o, kv):
+        if amounts(o, 'n_jobs') != ['1']:
+            return f'a job adds {fmt(o, ["n_jobs"])} [case: {cs.describe(kv)}]: n_jobs must be incremented by exactly 1 per job'
+        return None
+
+    def v_key(o, kv):
+        want = (canon(o.exprs['job_group_id']), canon(o.exprs['inst_coll']))
+        for t in o.tallies:
+            k = cs.strip_markers(t.key) if t.key is not None else None
+            got = tuple(canon(x) for x in k.elts) if isinstance(k, ast.Tuple) and len(k.elts) == 2 else None
+            if got is not None and got != want and set(got) <= set(canon(x) for x in o.exprs.values()):
+                return f'tallies are accumulated under `{D}[{pf.nsrc(k)}]` but the job row is inserted with job_group_id={want[0]}, inst_coll={want[1]}'
+        return None
+    odd_keys = [t for o in jl.outcomes for t in o.tallies if not (isinstance(t.key, ast.Tuple) and len(t.key.elts) == 2)]
+    for key, viol in (('::ready', v_ready), ('::cancellable', v_canc), ('::pending', v_pending), ('::n_jobs', v_njobs), ('::key', v_key)):
+        definite, possible = jl.judge(viol, [cs.A_ALWAYS])
+        if definite is not None:
+            ctx.bad('R5', cons + key, definite[1], path, line)
+        elif possible is not None:
+            declines.append(f'_create_jobs: {possible[1]} - but only for a particular outcome of {sorted(jl.opaque.values())[:3]}, which the analysis cannot relate to the job row')
+        elif key == '::key' and (odd_keys or any(v_key_undecided(o, canon) for o in jl.outcomes if not o.rejected)):
+            declines.append(f'_create_jobs: the key under which the tallies are accumulated is not recognisably (job_group_id, inst_coll) of the inserted row')
+        else:
+            ctx.ok('R5', cons + key, {'cases': len(jl.outcomes)})
+    ctx.ok('R5', cons + '::row', {'columns': sorted(row)})
+    ctx.unit('create_jobs_truth_table_cases', len(jl.outcomes))
+    K_JOB_GROUP, K_INST_COLL = 0, 1
 
     # (b) staging / cancellable inserts: parameter binding, on-duplicate symmetry, ancestor fan-out
-    for table, counters in ((STAGE_TBL, STAGE_COUNTERS), (CANC_TBL, ['n_ready_cancellable_jobs', 'ready_cancellable_cores_mcpu'])):
-        e, st = by_table[table]
+    known_counters = set(STAGE_COUNTERS) | {'n_ready_cancellable_jobs', 'ready_cancellable_cores_mcpu'}
+    for table, counters, rows, src in ((STAGE_TBL, STAGE_COUNTERS, srows, ssrc), (CANC_TBL, ['n_ready_cancellable_jobs', 'ready_cancellable_cores_mcpu'], crows, csrc)):
+        e, st = S.need_insert(table)
+        _, K1, K2, V = src
         cons2 = f'{file}::_create_jobs::insert {table}'
         ctx.need(st.select is not None, f'_create_jobs: the insert into {table} no longer fans out over job_group_self_and_ancestors in SQL (INSERT .. SELECT); '
                  'a roll-up done in Python is outside what this rule can decide')
         ins, dup, uvars = sr.insert_colmap(st)
         params = sr.params_in_order(st)
-        args_node = e.call.args[1] if len(e.call.args) > 1 else None
-        elts = sr.args_tuple(e.fn, args_node)
-        ctx.need(elts is not None and len(elts) == len(params), f'_create_jobs: cannot bind arguments of the {table} insert ({len(params)} parameters)')
-        bind = {id(p): pf.nsrc(x) for p, x in zip(params, elts)}
+        elts = rows.elts
+        ctx.need(len(elts) == len(params), f'_create_jobs: cannot bind arguments of the {table} insert ({len(params)} parameters, {len(elts)} row elements)')
+        bind = {id(p): x for p, x in zip(params, elts)}
+
+        def role(x: Optional[ast.AST]) -> str:
+            """What a row element denotes: a key component / a tally of the iterated item, or one of the per-request values of the jobs rows."""
+            if x is None:
+                return '?'
+            if isinstance(x, ast.Name) and x.id == K1:
+                return 'key.job_group_id'
+            if isinstance(x, ast.Name) and x.id == K2:
+                return 'key.inst_coll'
+            if isinstance(x, ast.Subscript) and isinstance(x.value, ast.Name) and x.value.id == V and pf.const_str(x.slice) is not None:
+                return 'tally.' + pf.const_str(x.slice)
+            for c in ('batch_id', 'update_id'):
+                if canon(x) == canon(row[c]):
+                    return 'request.' + c
+            return '?'
         for col in counters:
             ex = ins.get(col)
-            got = bind.get(id(ex)) if ex is not None and ex.kind == 'param' else None
-            ctx.check(got == f"resources['{col}']", 'R5', f'{cons2}.{col}', f'column {col} is bound to `{got}`, expected resources[\'{col}\']', m.path, e.lineno)
+            got = role(bind.get(id(ex))) if ex is not None and ex.kind == 'param' else '?'
+            if got == 'tally.' + col:
+                ctx.ok('R5', f'{cons2}.{col}')
+            elif got.startswith('tally.') and got[len('tally.'):] in known_counters:
+                ctx.bad('R5', f'{cons2}.{col}', f'column {col} is bound to the tally `{got[len("tally."):]}` (`{pf.nsrc(bind[id(ex)])}`), expected the tally {col!r} of the same item', path, e.lineno)
+            else:
+                declines.append(f'_create_jobs: column {col} of the {table} insert is bound to `{_src(bind.get(id(ex))) if ex is not None else None}`, not recognisably a tally of the iterated item')
             d = dup.get(col)
             inc = sr.dup_increment(col, d, uvars) if d is not None else None
             ok = inc is not None and inc[0] == 1 and inc[1].kind == 'values_fn' and inc[1].col.lower() == col
-            ctx.check(ok, 'R3', f'{cons2}.{col}::on-duplicate', f'ON DUPLICATE KEY UPDATE `{text(d)}` is not `{col} = {col} + VALUES({col})`', m.path, e.lineno)
+            ctx.check(ok, 'R3', f'{cons2}.{col}::on-duplicate', f'ON DUPLICATE KEY UPDATE `{text(d)}` is not `{col} = {col} + VALUES({col})`', path, e.lineno)
         extra = [c for c in dup if c not in counters]
-        ctx.check(not extra, 'R3', cons2 + '::one-sided', f'columns updated on duplicate key only: {extra}', m.path, e.lineno)
-        # fan-out: ancestor walk keyed by (batch_id, icr_job_group_id)
+        ctx.check(not extra, 'R3', cons2 + '::one-sided', f'columns updated on duplicate key only: {extra}', path, e.lineno)
+        # fan-out: ancestor walk keyed by (batch_id, the item's job group)
         sel = st.select
-        okf = sel is not None and sf.table_names(sel.frm) == ['job_group_self_and_ancestors'] and text(ins.get('job_group_id')).lower() == 'ancestor_id'
-        wb = wg = None
-        if okf:
+        walk = sf.table_names(sel.frm) == ['job_group_self_and_ancestors']
+        jgcol = ins.get('job_group_id')
+        wb = wg = '?'
+        if walk:
             for c in sf.conjuncts(sel.where):
-                if c.kind == 'bin' and c.op == '=' and c.right.kind == 'param':
-                    if text(c.left).lower().split('.')[-1] == 'batch_id':
-                        wb = bind.get(id(c.right))
-                    if text(c.left).lower().split('.')[-1] == 'job_group_id':
-                        wg = bind.get(id(c.right))
-        ctx.check(okf and wb == 'batch_id' and wg == 'icr_job_group_id', 'R5', cons2 + '::ancestor fan-out',
-                  f'staged counts are not inserted for the job group and all its ancestors (walk keyed by batch_id={wb}, job_group_id={wg})', m.path, e.lineno)
-        ctx.check(bind.get(id(ins.get('update_id'))) == 'update_id' and bind.get(id(ins.get('inst_coll'))) == 'inst_coll' and bind.get(id(ins.get('batch_id'))) == 'batch_id',
-                  'R5', cons2 + '::keys', 'batch_id / update_id / inst_coll columns are not bound to the like-named values', m.path, e.lineno)
-        # the comprehension iterates inst_coll_resources.items() with ((icr_job_group_id, inst_coll), resources)
-        d = pf.single_def(e.fn, args_node.id) if isinstance(args_node, ast.Name) else args_node
-        okc = isinstance(d, ast.ListComp) and pf.nsrc(d.generators[0].iter) == 'inst_coll_resources.items()' and pf.nsrc(d.generators[0].target) == '((icr_job_group_id, inst_coll), resources)'
-        ctx.check(okc, 'R5', cons2 + '::source', 'insert arguments are not generated from inst_coll_resources.items() as ((job_group_id, inst_coll), resources)', m.path, e.lineno)
-        if okc:
-            _check_row_filter(ctx, m, e, d, counters, cons2)
+                if c.kind == 'bin' and c.op == '=':
+                    for a, b in ((c.left, c.right), (c.right, c.left)):
+                        if a.kind == 'col' and b.kind == 'param':
+                            if a.parts[-1].lower() == 'batch_id':
+                                wb = role(bind.get(id(b)))
+                            if a.parts[-1].lower() == 'job_group_id':
+                                wg = role(bind.get(id(b)))
+        c3 = cons2 + '::ancestor fan-out'
+        if walk and jgcol is not None and jgcol.kind == 'col' and jgcol.parts[-1].lower() == 'ancestor_id' and wb == 'request.batch_id' and wg == 'key.job_group_id':
+            ctx.ok('R5', c3)
+        elif walk and jgcol is not None and jgcol.kind == 'col' and jgcol.parts[-1].lower() == 'job_group_id':
+            ctx.bad('R5', c3, 'the job_group_id column receives the walked group itself instead of ancestor_id: every ancestor row is written onto the job\'s own group, the ancestors\' staged counts stay behind', path, e.lineno)
+        elif walk and jgcol is not None and jgcol.kind == 'param' and role(bind.get(id(jgcol))) == 'key.job_group_id':
+            ctx.bad('R5', c3, 'staged counts are inserted for the job group only, not for its ancestors (job_group_id column bound to the item\'s own group)', path, e.lineno)
+        elif walk and wg in ('key.inst_coll',) or (walk and wg.startswith(('tally.', 'request.'))):
+            ctx.bad('R5', c3, f'the ancestor walk is keyed by job_group_id = {wg}, not by the job group the tallies were accumulated for', path, e.lineno)
+        else:
+            declines.append(f'_create_jobs: the fan-out of the {table} insert is not the recognised walk over job_group_self_and_ancestors (batch_id <- {wb}, job_group_id <- {wg})')
+        c4 = cons2 + '::keys'
+        got_keys = {c: (role(bind.get(id(ins[c]))) if c in ins and ins[c].kind == 'param' else '?') for c in ('update_id', 'inst_coll', 'batch_id')}
+        want_keys = {'update_id': 'request.update_id', 'inst_coll': 'key.inst_coll', 'batch_id': 'request.batch_id'}
+        if got_keys == want_keys:
+            ctx.ok('R5', c4)
+        elif all(v != '?' for v in got_keys.values()):
+            wrong = [f'{c} <- {v}' for c, v in got_keys.items() if v != want_keys[c]]
+            ctx.bad('R5', c4, f'batch_id / update_id / inst_coll columns are not bound to the like-named values ({", ".join(wrong)})', path, e.lineno)
+        else:
+            declines.append(f'_create_jobs: the key columns of the {table} insert are bound to {got_keys}: not recognised')
+        ctx.ok('R5', cons2 + '::source', {'mapping': D})
+        _check_row_filter(ctx, m, e, rows, V, counters, cons2, path)
+    if declines:
+        raise AnalysisError(declines[0])
+
+
+def v_key_undecided(o: Any, canon: Any) -> bool:
+    want = (canon(o.exprs['job_group_id']), canon(o.exprs['inst_coll']))
+    for t in o.tallies:
+        k = cs.strip_markers(t.key) if t.key is not None else None
+        got = tuple(canon(x) for x in k.elts) if isinstance(k, ast.Tuple) and len(k.elts) == 2 else None
+        if got != want:
+            return True
+    return False
 
 
 def _ready_only_first_update() -> bool:
-    """Premise: _create_jobs inserts a job Ready (and stages n_ready_jobs) only under a conjunct `update_id == 1`."""
+    """Premise: _create_jobs inserts a job Ready (and stages n_ready_jobs) only in the first update - decided on the truth table of the job loop."""
     try:
-        fn = pf.load('batch/batch/front_end/front_end.py').func('_create_jobs')
+        jl = submission().job_loop()
+        if any(not o.rejected and o.values.get('state') is cs.UNKNOWN for o in jl.outcomes):
+            return False
+        definite, possible = jl.judge(lambda o, kv: 'ready' if o.values.get('state') == 'Ready' and not kv.get(cs.A_FIRST, False) else None, [cs.A_FIRST])
+        return definite is None and possible is None
     except AnalysisError:
         return False
-    ifs = [n for n in pf.walk_shallow(fn) if isinstance(n, ast.If) and any(isinstance(s, ast.Assign) and pf.nsrc(s.targets[0]) == 'state'
-                                                                          and pf.const_str(s.value) == 'Ready' for s in n.body)]
-    if len(ifs) != 1:
-        return False
-    test = ifs[0].test
-    conj = test.values if isinstance(test, ast.BoolOp) and isinstance(test.op, ast.And) else [test]
-    return any(pf.nsrc(c) in ('update_id == 1', '1 == update_id') for c in conj)
 
 
 # a non-zero value of the key implies a non-zero value of the mapped column (per (job group, inst_coll) tally of one bunch)
@@ -720,26 +1087,32 @@ TALLY_DOMINATED_BY = {'ready_cores_mcpu': 'n_ready_jobs', 'n_ready_jobs': 'n_job
                       'n_ready_cancellable_jobs': 'n_ready_jobs'}
 
 
-def _check_row_filter(ctx: Ctx, m: pf.Module, e: Any, comp: ast.ListComp, counters: List[str], cons2: str) -> None:
+def _check_row_filter(ctx: Ctx, m: pf.Module, e: Any, rows: cs.Rows, V: str, counters: List[str], cons2: str, path: str) -> None:
     """Rows may only be left out of the staged insert when every amount they carry is zero."""
-    def tested(t: ast.expr) -> Optional[set]:
-        if isinstance(t, ast.BoolOp) and isinstance(t.op, ast.Or):
-            parts = [tested(v) for v in t.values]
+    def tested(t: ast.expr, pol: bool) -> Optional[set]:
+        """The tallies of which at least one is non-zero whenever the row is KEPT."""
+        if isinstance(t, ast.UnaryOp) and isinstance(t.op, ast.Not):
+            return tested(t.operand, not pol)
+        if isinstance(t, ast.BoolOp) and ((isinstance(t.op, ast.Or) and pol) or (isinstance(t.op, ast.And) and not pol)):
+            parts = [tested(v, pol) for v in t.values]
             return None if any(p is None for p in parts) else set().union(*parts)
-        if isinstance(t, ast.Compare) and len(t.ops) == 1 and isinstance(t.ops[0], (ast.Gt, ast.NotEq)) and isinstance(t.comparators[0], ast.Constant) and t.comparators[0].value == 0:
-            t = t.left
-        if isinstance(t, ast.Subscript) and pf.nsrc(t.value) == 'resources' and pf.const_str(t.slice) is not None:
+        if isinstance(t, ast.Compare) and len(t.ops) == 1 and isinstance(t.comparators[0], ast.Constant) and t.comparators[0].value == 0 and not isinstance(t.comparators[0].value, bool):
+            if (isinstance(t.ops[0], (ast.Gt, ast.NotEq)) and pol) or (isinstance(t.ops[0], (ast.Eq, ast.LtE)) and not pol):
+                return tested(t.left, True)
+            return None
+        if pol and isinstance(t, ast.Subscript) and isinstance(t.value, ast.Name) and t.value.id == V and pf.const_str(t.slice) is not None:
             return {pf.const_str(t.slice)}
         return None
 
-    filters = list(comp.generators[0].ifs)
-    ctx.need(len(comp.generators) == 1, f'_create_jobs: nested comprehension for {cons2}')
+    arg = e.call.args[1] if len(e.call.args) > 1 else None
     for (node, in_body) in sr.enclosing_ifs(m, e.call, stop=e.fn):
-        ok_outer = in_body and isinstance(e.call.args[1], ast.Name) and pf.nsrc(node.test) == e.call.args[1].id
+        ok_outer = in_body and isinstance(arg, ast.Name) and ((isinstance(node.test, ast.Name) and node.test.id == arg.id) or pf.nsrc(node.test) in (f'len({arg.id}) > 0', f'len({arg.id}) != 0', f'len({arg.id})'))
         ctx.need(ok_outer, f'_create_jobs: the counter insert is conditional on `{pf.nsrc(node.test)}`: not a recognised "nothing to insert" test')
-    for f in filters:
-        T = tested(f)
-        ctx.need(T is not None, f'_create_jobs: row filter `{pf.nsrc(f)}` on the counter insert is not a test of resources[...] amounts')
+    for f, pol, kind in rows.conds:
+        if kind == 'raise':
+            continue
+        T = tested(f, pol)
+        ctx.need(T is not None, f'_create_jobs: row filter `{"" if pol else "not "}{pf.nsrc(f)}` on the counter insert is not a test of the item\'s tallies')
         assert T is not None
         for col in counters:
             chain = {col}
@@ -747,8 +1120,8 @@ def _check_row_filter(ctx: Ctx, m: pf.Module, e: Any, comp: ast.ListComp, counte
             while cur in TALLY_DOMINATED_BY:
                 cur = TALLY_DOMINATED_BY[cur]
                 chain.add(cur)
-            ctx.check(bool(chain & T), 'R9', f'{cons2}.{col}::row filter', f'rows are only inserted when `{pf.nsrc(f)}`, but they also carry {col}, which can be non-zero while everything the filter tests is zero '
-                      f'(e.g. a bunch whose jobs in this group are all Pending has n_jobs > 0 and n_ready_jobs = 0): that amount never reaches the staged counters', m.path, e.lineno)
+            ctx.check(bool(chain & T), 'R9', f'{cons2}.{col}::row filter', f'rows are only inserted when `{"" if pol else "not "}{pf.nsrc(f)}`, but they also carry {col}, which can be non-zero while everything the filter tests is zero '
+                      f'(e.g. a bunch whose jobs in this group are all Pending has n_jobs > 0 and n_ready_jobs = 0): that amount never reaches the staged counters', path, e.lineno)
 
 
 # ------------------------------------------------------------------------------------------------
@@ -759,6 +1132,41 @@ ALLOWED_WRITERS = {
     STAGE_TBL: {'py:batch/batch/front_end/front_end.py::_create_jobs.insert_jobs_into_db', 'py:batch/batch/driver/main.py::delete_committed_job_groups_inst_coll_staging_records'},
 }
 WRITE_RE = re.compile(r'\b(INSERT|UPDATE|DELETE|REPLACE|TRUNCATE)\b', re.I)
+
+
+def _entry_points(m: pf.Module, fn: Optional[pf.FuncDef], depth: int = 0, seen: Optional[set] = None) -> List[str]:
+    """Qualified names of the functions through which `fn` is entered: fn itself when nothing in the module calls it directly or when it is
+    referenced other than by a direct call (registered as a callback / task), otherwise the entry points of its callers."""
+    if fn is None:
+        return ['<module>']
+    seen = seen if seen is not None else set()
+    if id(fn) in seen or depth > 4:
+        return [m.qualname(fn)]
+    seen.add(id(fn))
+    callers = []
+    other_ref = False
+    par = m.parents()
+    for q, g in m.functions():
+        for n in pf.walk_shallow(g):
+            if isinstance(n, ast.Call) and g is not fn and c56.resolve_callable(m, g, n) is fn:
+                callers.append(g)
+    for n in ast.walk(m.tree):
+        if isinstance(n, ast.Name) and n.id == fn.name and isinstance(n.ctx, ast.Load):
+            p_ = par.get(n)
+            if not (isinstance(p_, ast.Call) and p_.func is n):
+                other_ref = True
+        elif isinstance(n, ast.Attribute) and n.attr == fn.name and isinstance(n.ctx, ast.Load):
+            p_ = par.get(n)
+            if not (isinstance(p_, ast.Call) and p_.func is n):
+                other_ref = True
+    out: List[str] = []
+    if other_ref or not callers:
+        out.append(m.qualname(fn))
+    for g in callers:
+        for q in _entry_points(m, g, depth + 1, seen):
+            if q not in out:
+                out.append(q)
+    return out
 
 
 def writers_scan(ctx: Ctx, prog: sf.SqlProgram, dirs: List[str], tables: Dict[str, set], rule: str, extra_sources: Optional[List[Tuple[str, str]]] = None) -> Dict[str, set]:
@@ -777,8 +1185,8 @@ def writers_scan(ctx: Ctx, prog: sf.SqlProgram, dirs: List[str], tables: Dict[st
         n_mod += 1
         if not any(t in m.src for t in tables):
             continue
-        covered: set = set()
-        for e in sf.embedded_in(m):
+        covered = cs.sql_constant_nodes(m)   # the SQL texts of execute-style calls, also when held in a module-level constant / an enclosing function's variable
+        for e in cs.embedded(m):
             if e.sql_text is None:
                 continue
             if not any(t in e.sql_text for t in tables):
@@ -786,19 +1194,15 @@ def writers_scan(ctx: Ctx, prog: sf.SqlProgram, dirs: List[str], tables: Dict[st
             sts = e.stmts()
             if e.parse_error:
                 raise AnalysisError(f'{rel}:{e.lineno}: SQL naming a counter table does not parse ({e.parse_error})')
-            for n in ast.walk(e.call.args[0]) if not isinstance(e.call.args[0], ast.Name) else []:
-                covered.add(id(n))
-            if isinstance(e.call.args[0], ast.Name) and e.fn is not None:
-                d = pf.single_def(e.fn, e.call.args[0].id)
-                if d is not None:
-                    for n in ast.walk(d):
-                        covered.add(id(n))
             for st in sts:
                 for t, verb in sf.written_tables(st):
                     if t.lower() in tables:
-                        wid = f'py:{rel}::{e.qual}'
-                        found[t.lower()].add(wid)
-                        where[(t.lower(), wid)] = (m.path, e.lineno)
+                        # a write inside a helper function is attributed to the functions that (transitively) call the helper: extracting the
+                        # statement into a helper does not create a new writer, a NEW caller of such a helper does
+                        for q in ([e.qual] if f'py:{rel}::{e.qual}' in tables[t.lower()] else _entry_points(m, e.fn)):
+                            wid = f'py:{rel}::{q}'
+                            found[t.lower()].add(wid)
+                            where[(t.lower(), wid)] = (m.path, e.lineno)
         # any other string constant naming a counter table together with a write verb is an unrecognised writer
         for n in ast.walk(m.tree):
             if isinstance(n, ast.Constant) and isinstance(n.value, str) and id(n) not in covered:
@@ -824,43 +1228,130 @@ def r6_closed_world(ctx: Ctx, prog: sf.SqlProgram) -> None:
     if [t for t, _ in sf.written_tables(st)] != [USER_TBL]:
         raise AnalysisError('positive control failed: synthetic writer not recognised')
     ctx.ok('R6', 'positive-control::synthetic UPDATE user_inst_coll_resources', nontrivial=False)
-    # cleanup loops: delete keyed by exactly the selected triple; selectors filtered
-    m = pf.load('batch/batch/driver/main.py')
+    # cleanup loops: delete keyed by exactly the selected triple; selectors filtered.  Decided on the function with its module-level helpers
+    # inlined; the loop variable and the key tuple are resolved, not matched by name
+    m0 = pf.load('batch/batch/driver/main.py')
+    KEY = ['batch_id', 'job_group_id', 'update_id']
     for fname, table, filt in (('delete_committed_job_groups_inst_coll_staging_records', STAGE_TBL, 'committed'),
                                ('delete_prev_cancelled_job_group_cancellable_resources_records', CANC_TBL, 'cancelled')):
-        embs = [e for e in sf.embedded_in(m) if e.qual == fname]
-        ctx.need(len(embs) == 2, f'{fname}: expected a selector and a delete')
-        sel = [st for e in embs for st in e.stmts() if st.kind == 'select']
+        m0.func(fname)
+        m, fn, _il = cs.prepare(m0, fname)
+        embs = [e for e in cs.embedded(m) if e.fn is fn]
+        ctx.need(len(embs) == 2 and all(e.sql_text is not None and not (e.stmts() and False) and not e.parse_error for e in embs), f'{fname}: expected a selector and a delete with literal SQL')
+        sel = [(e, st) for e in embs for st in e.stmts() if st.kind == 'select']
         dels = [(e, st) for e in embs for st in e.stmts() if st.kind == 'delete']
         ctx.need(len(sel) == 1 and len(dels) == 1, f'{fname}: selector/delete not recognised')
-        s, (de, d) = sel[0], dels[0]
+        (se, s), (de, d) = sel[0], dels[0]
         cons = f'{m.rel}::{fname}'
+        ctx.need([t.lower() for t, _ in sf.written_tables(d)] == [table], f'{fname}: the delete does not target {table}')
         params = sr.params_in_order(d)
-        elts = sr.args_tuple(de.fn, de.call.args[1] if len(de.call.args) > 1 else None)
-        keyed = False
-        if elts is not None and len(elts) == len(params) == 3:
-            bind = {id(p): pf.nsrc(x) for p, x in zip(params, elts)}
-            got = {}
-            for c in sf.conjuncts(d.where):
-                if c.kind == 'bin' and c.op == '=' and c.right.kind == 'param':
-                    got[text(c.left).lower().split('.')[-1]] = bind[id(c.right)]
-            keyed = got == {'batch_id': "target['batch_id']", 'update_id': "target['update_id']", 'job_group_id': "target['job_group_id']"} and len(sf.conjuncts(d.where)) == 3
-        ctx.check(keyed, 'R6', cons + '::delete key', f'rows are not deleted by exactly the selected (batch_id, update_id, job_group_id): WHERE {text(d.where)}', m.path, de.lineno)
-        selected = sorted(text(c).lower().split('.')[-1] for c, _ in s.cols)
-        ctx.check(selected == ['batch_id', 'job_group_id', 'update_id'] and sf.table_names(s.frm)[0].lower() == table, 'R6', cons + '::selector columns',
-                  f'selector returns {selected} from {sf.table_names(s.frm)}', m.path, embs[0].lineno)
+        elts = sr.args_tuple(fn, de.call.args[1] if len(de.call.args) > 1 else None)
+        ctx.need(elts is not None and len(elts) == len(params), f'{fname}: cannot bind the arguments of the delete')
+        assert elts is not None
+        # the loop the delete runs in iterates the rows of the selector
+        loops = [l for l in sr.enclosing_loops(m, de.call) if any(l is x for x in pf.walk_shallow(fn))]
+        ctx.need(len(loops) == 1 and isinstance(loops[0].target, ast.Name), f'{fname}: the delete does not run in one `for <row> in <selected rows>` loop')
+        T = loops[0].target.id
+        it = loops[0].iter
+        if isinstance(it, ast.Name):
+            it = pf.resolve_expr(fn, it)
+        if isinstance(it, ast.Await):
+            it = it.value
+        ctx.need(it is se.call, f'{fname}: the loop around the delete does not iterate the result of the selector query')
+        bind = {id(p): x for p, x in zip(params, elts)}
+        got: Dict[str, Optional[str]] = {}
+        other = []
+        for c in sf.conjuncts(d.where):
+            hit = False
+            if c.kind == 'bin' and c.op == '=':
+                for a, b in ((c.left, c.right), (c.right, c.left)):
+                    if a.kind == 'col' and b.kind == 'param':
+                        x = bind[id(b)]
+                        got[a.parts[-1].lower()] = pf.const_str(x.slice) if isinstance(x, ast.Subscript) and isinstance(x.value, ast.Name) and x.value.id == T else None
+                        hit = True
+                        break
+            if not hit:
+                other.append(c)
+        if got == {k: k for k in KEY} and not other:
+            ctx.ok('R6', cons + '::delete key')
+        elif not other and set(got) < set(KEY) and all(got[k] == k for k in got):
+            ctx.bad('R6', cons + '::delete key', f'rows are deleted by {sorted(got)} only, not by exactly the selected (batch_id, update_id, job_group_id): WHERE {text(d.where)} also removes rows of '
+                    f'{sorted(set(KEY) - set(got))} values that were not selected (still needed counters disappear)', m.path, de.lineno)
+        elif not other and set(got) == set(KEY) and all(v in KEY for v in got.values()):
+            ctx.bad('R6', cons + '::delete key', f'the delete compares {", ".join(f"{k} with the selected {v}" for k, v in sorted(got.items()) if k != v)}: rows other than the selected ones are removed', m.path, de.lineno)
+        else:
+            raise AnalysisError(f'{fname}: the WHERE of the delete ({text(d.where)[:120]}) is not recognisably keyed by the columns of the selected row')
+        selected = {(al or text(c).split('.')[-1]).lower().strip('`') for c, al in s.cols}
+        ctx.need(set(KEY) <= selected and table in [t.lower() for t in sf.table_names(s.frm)], f'{fname}: the selector does not return (batch_id, update_id, job_group_id) of {table} (returns {sorted(selected)} from {sf.table_names(s.frm)})')
+        sal = cf.alias_map(s)
+        for c_, al_ in s.cols:
+            nm = (al_ or text(c_).split('.')[-1]).lower().strip('`')
+            if nm in KEY and c_.kind == 'col':
+                tt = cf.term_of(c_, sal, prog.tables)
+                ctx.need(tt is not None and tt[0] == 'col' and tt[1] in (table, '?') and tt[2] == nm, f'{fname}: the selected {nm} is `{text(c_)}`, not the {nm} of the {table} row')
+        ctx.ok('R6', cons + '::selector columns', {'selected': sorted(selected)})
         if filt == 'committed':
-            conj = [text(c).lower() for c in sf.conjuncts(s.where)]
-            on = [text(c).lower() for j in s.frm.joins for c in sf.conjuncts(j.on)]
-            ok = any(c.split('.')[-1] == 'committed' for c in conj) and 'batch_updates' in [t.lower() for t in sf.table_names(s.frm)] and \
-                any('update_id' in c for c in on) and any('batch_id' in c for c in on)
-            ctx.check(ok, 'R6', cons + '::only committed', 'staging rows of an update that is not committed could be deleted (they are still needed by commit_batch_update)', m.path, embs[0].lineno)
+            alias = _alias_map(s)
+            conj = _all_conjuncts(s)
+            eqs = set()
+            for c in conj:
+                if c.kind == 'bin' and c.op == '=' and c.left.kind == 'col' and c.right.kind == 'col':
+                    def tc(x: N) -> Tuple[str, str]:
+                        return (alias.get(x.parts[-2].lower(), '?') if len(x.parts) > 1 else '?', x.parts[-1].lower())
+                    eqs.add(frozenset((tc(c.left), tc(c.right))))
+            joined = frozenset(((table, 'batch_id'), ('batch_updates', 'batch_id'))) in eqs and frozenset(((table, 'update_id'), ('batch_updates', 'update_id'))) in eqs
+            inner = all(j.jtype == 'INNER' for j in s.frm.joins)
+            has_commit = any(_truthy_col(c, alias, 'batch_updates', 'committed') for c in conj)
+            mentions = any(x.kind == 'col' and x.parts[-1].lower() == 'committed' for c in conj for x in c.walk())
+            if has_commit and joined and inner:
+                ctx.ok('R6', cons + '::only committed')
+            elif not mentions:
+                ctx.bad('R6', cons + '::only committed', 'staging rows of an update that is not committed could be deleted (they are still needed by commit_batch_update): the selector never tests batch_updates.committed',
+                        m.path, se.lineno)
+            else:
+                raise AnalysisError(f'{fname}: the selector mentions `committed` but not as a conjunct on batch_updates joined on (batch_id, update_id) with inner joins: not decided')
         else:
             lat = [t for t in sf.from_tables(s.frm) if t.kind == 'derived']
-            inner_join = bool(s.frm.joins) and s.frm.joins[0].jtype == 'INNER'
-            ok = len(lat) == 1 and inner_join and _is_canonical_walk(lat[0].select, 'group_resources')
-            ctx.check(ok, 'R6', cons + '::only cancelled', 'cancellable rows of a group with no cancelled self-or-ancestor could be deleted (INNER JOIN LATERAL on the ancestor walk is required)',
-                      m.path, embs[0].lineno)
+            walks = [t for t in lat if _is_canonical_walk(t.select, None)]
+            names = [t.lower() for t in sf.table_names(s.frm)]
+            WALK, MARK = 'job_group_self_and_ancestors', 'job_groups_cancelled'
+            c_ = cons + '::only cancelled'
+            if len(walks) == 1 and any(j.ref is walks[0] and j.jtype == 'INNER' for j in s.frm.joins):
+                ctx.ok('R6', c_)
+            elif len(walks) == 1 and any(j.ref is walks[0] and j.jtype == 'LEFT' for j in s.frm.joins) and not any(
+                    x.kind == 'isnull' and x.negated and x.arg.kind == 'col' and len(x.arg.parts) == 2 and x.arg.parts[0].lower() == walks[0].alias.lower() for x in (s.where.walk() if s.where is not None else [])):
+                ctx.bad('R6', c_, 'cancellable rows of a group with no cancelled self-or-ancestor could be deleted: the ancestor walk is LEFT JOINed and its result is not required (INNER JOIN LATERAL, or IS NOT NULL on it)',
+                        m.path, se.lineno)
+            elif not lat and sorted(names) == sorted([table, WALK, MARK]) and all(j.jtype == 'INNER' for j in s.frm.joins):
+                # the walk written as plain inner joins: the selected row's group must be the DESCENDANT end, the mark the ANCESTOR end
+                ec = cf.eq_closure(s, prog.tables)
+                g, w, k = (lambda c: ('col', table, c)), (lambda c: ('col', WALK, c)), (lambda c: ('col', MARK, c))
+                same_batch = ec.related(g('batch_id'), w('batch_id')) and ec.related(w('batch_id'), k('id'))
+                if same_batch and ec.related(g('job_group_id'), w('job_group_id')) and ec.related(w('ancestor_id'), k('job_group_id')):
+                    ctx.ok('R6', c_)
+                elif same_batch and ec.related(g('job_group_id'), w('ancestor_id')) and ec.related(w('job_group_id'), k('job_group_id')):
+                    ctx.bad('R6', c_, 'the ancestor walk is followed in the wrong direction: the rows selected for deletion are those of the ANCESTORS of a cancelled group (the cancelled mark is joined to the descendant end '
+                            'of job_group_self_and_ancestors, the cancellable row to ancestor_id), so cancellable counts of groups that are not cancelled disappear', m.path, se.lineno)
+                else:
+                    raise AnalysisError(f'{fname}: the joins of the selector between {table}, {WALK} and {MARK} are not recognised')
+            elif not lat and MARK not in [t.lower() for x in s.walk() if x.kind == 'select' for t in sf.table_names(x.frm)]:
+                ctx.bad('R6', c_, 'cancellable rows are selected for deletion without looking at job_groups_cancelled at all', m.path, se.lineno)
+            else:
+                raise AnalysisError(f'{fname}: how the selector restricts the rows to cancelled groups is not recognised')
+
+
+def _truthy_col(c: N, alias: Dict[str, str], table: str, col: str) -> bool:
+    """`t.col` | `t.col = 1` | `1 = t.col` | `t.col = TRUE` | `t.col IS TRUE` | `t.col <> 0`: a conjunct requiring the flag column to be set."""
+    if c.kind == 'bin' and c.op in ('=', '<=>') and c.right.kind == 'lit' and c.right.value in (1, True) and not isinstance(c.right.value, str):
+        c = c.left
+    elif c.kind == 'bin' and c.op in ('=', '<=>') and c.left.kind == 'lit' and c.left.value in (1, True) and not isinstance(c.left.value, str):
+        c = c.right
+    elif c.kind == 'bin' and c.op in ('!=', '<>') and c.right.kind == 'lit' and c.right.value in (0, False) and c.right.value is not None and not isinstance(c.right.value, str):
+        c = c.left
+    elif c.kind == 'is' and getattr(c, 'value', None) in (True, 1) and not getattr(c, 'negated', False):
+        c = c.arg
+    sole = list(alias.values()).count(table) == 1
+    return _col_of(c, alias, table, col, sole=sole)
 
 
 # ------------------------------------------------------------------------------------------------
@@ -899,7 +1390,7 @@ def r8_immutable(ctx: Ctx, prog: sf.SqlProgram) -> None:
         m = pf.load(rel)
         if 'jobs' not in m.src:
             continue
-        for e in sf.embedded_in(m):
+        for e in cs.embedded(m):
             if e.sql_text is None or 'jobs' not in e.sql_text or e.parse_error:
                 continue
             for st in e.stmts():
@@ -1055,19 +1546,37 @@ def r10_cancel_sites(ctx: Ctx, prog: sf.SqlProgram, dirs: List[str]) -> None:
         m = pf.load(rel)
         if 'cancel_job_group' not in m.src and 'cancel_batch' not in m.src and MARK_TBL not in m.src:
             continue
-        for e in sf.embedded_in(m):
+        for e in cs.embedded(m):
             if e.sql_text is None or not any(k in e.sql_text for k in ('cancel_job_group', 'cancel_batch', MARK_TBL)):
                 continue
             sts = e.stmts()
             ctx.need(not e.parse_error, f'{rel}:{e.lineno}: SQL naming the cancel procedures does not parse ({e.parse_error})')
-            for st in sts:
+            for i_st, st in enumerate(sts):
                 if any(t.lower() == MARK_TBL for t, _ in sf.written_tables(st)):
                     ctx.bad('R10', f'{rel}::{e.qual}::{st.kind} {MARK_TBL}', f'{e.qual} writes {MARK_TBL} directly: the mark appears without the cancel procedure moving the counters', m.path, e.lineno)
                 if st.kind != 'call' or st.name.lower() != 'cancel_job_group':
                     continue
                 n_sites += 1
-                _cancel_site(ctx, m, e, st)
+                m2, e2 = _inlined_site(m, e)
+                _cancel_site(ctx, m2, e2, e2.stmts()[i_st])
     ctx.need(n_sites >= 2, f'only {n_sites} Python call sites of cancel_job_group found')
+
+
+def _inlined_site(m: pf.Module, e: sf.Embedded) -> Tuple[pf.Module, sf.Embedded]:
+    """The execute-style call e in the copy of its module whose outermost enclosing (module-level) function has its module-level helpers
+    inlined (also inside nested functions): a guard moved into a helper is analysed as if it had stayed in place."""
+    top = cs.outermost_function(m, e.call)
+    if top is None or not any(top is x for x in m.tree.body):
+        return m, e
+    try:
+        m2, top2, _ = cs.prepared(m, top.name)
+    except AnalysisError:
+        return m, e
+    c2 = cs.counterpart(m2, top2, e.call)
+    for e2 in cs.embedded(m2):
+        if e2.call is c2:
+            return m2, e2
+    return m, e
 
 
 def _cancel_site(ctx: Ctx, m: pf.Module, e: sf.Embedded, st: N) -> None:
@@ -1086,7 +1595,7 @@ def _cancel_site(ctx: Ctx, m: pf.Module, e: sf.Embedded, st: N) -> None:
     target = g.node_of(e.call)
     ctx.need(len(target) == 1, f'{m.rel}:{e.lineno}: CALL cancel_job_group not found in the control-flow graph')
     keyed = []
-    for e2 in sf.embedded_in(m):
+    for e2 in cs.embedded(m):
         if e2.fn is not e.fn or e2 is e or e2.sql_text is None or 'job_groups' not in e2.sql_text:
             continue
         sts2 = e2.stmts()
@@ -1099,6 +1608,7 @@ def _cancel_site(ctx: Ctx, m: pf.Module, e: sf.Embedded, st: N) -> None:
         keyed.append((e2, sel, bind2))
     ctx.need(keyed, f'{m.rel}::{e.qual}: no row-existence query over job_groups keyed by the CALL\'s own ({b_src}, {g_src}) in this function: who establishes "committed or root" is not analysed')
     ok = False
+    unclear = ''
     why = 'its WHERE does not require `batch_updates.committed` (joined on the group\'s own batch_id, update_id) or the root group'
     for e2, sel, bind2 in keyed:
         if not _committed_or_root(m, sel, bind2):
@@ -1106,12 +1616,21 @@ def _cancel_site(ctx: Ctx, m: pf.Module, e: sf.Embedded, st: N) -> None:
         rec = _assigned_name(m, e2.call)
         assign = g.node_of(e2.call)
         if rec is None or len(assign) != 1 or not e2.method.endswith('fetchone'):
-            why = 'its result is not bound to a variable that is tested'
+            p_ = m.parents().get(e2.call)
+            p_ = m.parents().get(p_) if isinstance(p_, ast.Await) else p_
+            if isinstance(p_, ast.Expr):
+                why = 'its result is discarded'
+            else:
+                unclear = unclear or 'the result of the guard query is not bound to a plain variable'
             continue
-        if cf.guard_dominates(g, cf.record_tests(g, rec), assign[0], target[0]):
+        tests, _, mentioned = cf.outcome_tests(g, e.fn, rec)
+        if cf.guard_dominates(g, tests, assign[0], target[0]):
             ok = True
-        else:
+        elif tests or not mentioned:
             why = f'the CALL is reachable without the "row found" outcome of `{rec}`'
+        else:
+            unclear = unclear or f'`{rec}` is used in a way the analysis does not recognise as a row-found test'
+    ctx.need(ok or not unclear, f'{m.rel}::{e.qual}: {unclear}')
     ctx.check(ok, 'R10', cons, f'cancel_job_group({b_src}, {g_src}) can be called for a non-root job group whose creating update is not committed: the guard query before it exists but {why}. '
               + A2_HISTORY, m.path, e.lineno)
 
@@ -1123,7 +1642,7 @@ def r11_commit_sites(ctx: Ctx, dirs: List[str]) -> None:
         m = pf.load(rel)
         if 'commit_batch_update' not in m.src:
             continue
-        for e in sf.embedded_in(m):
+        for e in cs.embedded(m):
             if e.sql_text is None or 'commit_batch_update' not in e.sql_text:
                 continue
             sts = e.stmts()
@@ -1152,15 +1671,30 @@ def r11_commit_sites(ctx: Ctx, dirs: List[str]) -> None:
                         ctx.need(not any(v.endswith('.' + fn.name) for v in m2.imports().values()), f'{rel2} imports {fn.name}: callers outside {rel} are not analysed')
             for call in sites:
                 n += 1
-                _commit_site(ctx, m, call, idx, fn.name)
+                top = cs.outermost_function(m, call)
+                m2, call2 = m, call
+                if top is not None and any(top is x for x in m.tree.body):
+                    try:
+                        mm, top2, _ = cs.prepared(m, top.name)
+                        c2 = cs.counterpart(mm, top2, call)
+                        if c2 is not None:
+                            m2, call2 = mm, c2
+                    except AnalysisError:
+                        pass
+                _commit_site(ctx, m2, call2, idx, fn.name)
     ctx.need(n >= 4, f'only {n} call sites of the commit wrapper found')
 
 
 def _refusal_in_creator(ctx: Ctx, m: pf.Module, creator: str) -> bool:
     """Does `creator` refuse (raise) for a cancelled root group before it inserts a new batch_updates row?"""
     ctx.need(m.has_func(creator), f'{creator} not found')
+    if any(isinstance(x, (ast.FunctionDef, ast.AsyncFunctionDef)) and x.name == creator for x in m.tree.body):
+        try:
+            m = cs.prepared(m, creator)[0]
+        except AnalysisError:
+            pass
     outer = m.func(creator)
-    for e in sf.embedded_in(m):
+    for e in cs.embedded(m):
         if e.fn is None or not (e.fn is outer or m.qualname(e.fn).startswith(creator + '.')) or e.sql_text is None or 'batch_updates' not in e.sql_text:
             continue
         for st in e.stmts():
@@ -1169,7 +1703,7 @@ def _refusal_in_creator(ctx: Ctx, m: pf.Module, creator: str) -> bool:
                 tgt = g.node_of(e.call)
                 if len(tgt) != 1:
                     return False
-                return any(_root_cancel_refusal(m, e.fn, e2, tgt[0], None) == 'ok' for e2 in sf.embedded_in(m) if e2.fn is e.fn and e2 is not e)
+                return any(_root_cancel_refusal(m, e.fn, e2, tgt[0], None) == 'ok' for e2 in cs.embedded(m) if e2.fn is e.fn and e2 is not e)
     return False
 
 
@@ -1219,9 +1753,12 @@ def _root_cancel_refusal(m: pf.Module, fn: pf.FuncDef, e2: sf.Embedded, target: 
     assign = g.node_of(e2.call)
     if rec is None or len(assign) != 1:
         return 'untested'
-    tests = [(t, 'F') for t in g.find(lambda t: t.kind == 'test') if pf.nsrc(t.ast) in (f"{rec}['{flag}']", f'{rec}["{flag}"]', f"{rec}.get('{flag}')")]
-    tests += [(t, 'T') for t in g.find(lambda t: t.kind == 'test') if pf.nsrc(t.ast) in (f"not {rec}['{flag}']",)]
-    return 'ok' if cf.guard_dominates(g, tests, assign[0], target) else 'untested'
+    _, tests, mentioned = cf.outcome_tests(g, fn, rec, flag)
+    if cf.guard_dominates(g, tests, assign[0], target):
+        return 'ok'
+    # the flag is fetched and never looked at, or looked at in recognised tests that do not stand between the query and the commit: positive
+    # evidence; looked at in some other way (handed to a helper the inliner could not follow, stored, ..): not decided
+    return 'untested' if (tests or not mentioned) else 'unclear'
 
 
 _creator_ok: Dict[str, bool] = {}
@@ -1248,10 +1785,11 @@ def _commit_site(ctx: Ctx, m: pf.Module, call: ast.Call, idx: int, wrapper: str)
                           'the staged Ready jobs of a cancelled batch are added to n_ready_jobs', m.path, call.lineno)
                 return
     # (ii) an explicit look at the root group's mark in the caller
-    verdicts = [(e2, _root_cancel_refusal(m, fn, e2, target[0], b_src)) for e2 in sf.embedded_in(m) if e2.fn is fn]
+    verdicts = [(e2, _root_cancel_refusal(m, fn, e2, target[0], b_src)) for e2 in cs.embedded(m) if e2.fn is fn]
     kinds = [v for _, v in verdicts if v]
     ctx.need(kinds, f'{m.rel}::{m.qualname(fn)}: no batch / job-group query keyed by {b_src} before {wrapper}: who refuses a cancelled batch is not analysed')
     ok = 'ok' in kinds
+    ctx.need(ok or 'unclear' not in kinds, f'{m.rel}::{m.qualname(fn)}: the root group\'s cancellation mark is fetched before {wrapper} but used in a way the analysis does not recognise as a refusal')
     if 'untested' in kinds:
         why = 'the query reads the root group\'s cancellation mark but the commit is reachable whatever it returned'
     else:
@@ -1376,7 +1914,7 @@ def r12_readers(ctx: Ctx, prog: sf.SqlProgram, dirs: List[str]) -> None:
         m = pf.load(rel)
         if not any(t in m.src for t in SHARDED):
             continue
-        for e in sf.embedded_in(m):
+        for e in cs.embedded(m):
             if e.sql_text is None or not any(t in e.sql_text for t in SHARDED):
                 continue
             sts = e.stmts()
@@ -1497,9 +2035,11 @@ def r9_procedures(ctx: Ctx, prog: sf.SqlProgram) -> None:
         bad_lit = None
         # integer ranges of the quantities an extra guard may legitimately test: at least one job in the update (with zero jobs nothing is staged);
         # and, when the front end stages Ready jobs only for update_id == 1, the only update whose roll-up is non-zero
-        ranges: Dict[str, Tuple[int, Optional[int]]] = {'expected_n_jobs': (1, None), 'staging_n_jobs': (1, None)}
-        if _ready_only_first_update():
-            ranges['in_update_id'] = (1, 1)
+        _cv, expected_vars, staged_vars = _commit_locals(a, prog)
+        ranges: Dict[str, Tuple[int, Optional[int]]] = {v: (1, None) for v in expected_vars + staged_vars}
+        pn = [p[1].lower() for p in getattr(a, 'params', [])]
+        if _ready_only_first_update() and len(pn) >= 2:
+            ranges[pn[1]] = (1, 1)
         witness = ''
         for c, pol in extra:
             verdict = _holds_on_ranges(c, pol, ranges)
